@@ -2,8 +2,8 @@
 
    Main result: failed_restores — from a quiescent state (nothing pending, every implemented module compiled
    against the current features, no to_compile mark) in which exactly the newest revision of every name carries
-   LYS_MOD_LATEST_REV (invariant LJ, proved for every reachable state: reachable_LJ) a failing operation that does
-   not change the feature bits of an existing module leaves the observable state as it was. The proof follows the phases of an operation:
+   LYS_MOD_LATEST_REV (invariant LJ, proved for every reachable state: reachable_LJ) a failing operation leaves the
+   observable state as it was. The proof follows the phases of an operation:
      parse (lys_parse_in / lys_parse_load)       invariant PI  : old modules only change their flag bits, new
                                                                   modules are appended and recorded in creating
      implement, dep sets, compile                invariant QI  : old modules keep frame, implemented ones stay
@@ -351,15 +351,20 @@ Record wf_state (s : state) : Prop := {
   wfs_nodup : NoDup (keys (mods s));
   wfs_mods : forall m, In m (mods s) -> wf_mod (mods s) m;
   wfs_creating : creating s = [];
-  wfs_implementing : implementing s = [] }.
+  wfs_implementing : implementing s = [];
+  wfs_featsaved : featsaved s = [];
+  wfs_plain : forall m, In m (mods s) -> m_single m = true -> snapshot_all (mods s) m = [] }.
 
 Lemma quiescent_wf s : quiescent s = true -> wf_state s.
 Proof.
-  unfold quiescent. rewrite !andb_true_iff. intros [[[H1 H2] H3] H4]. constructor.
+  unfold quiescent. rewrite !andb_true_iff. intros [[[[[H1 H2] H3] H4] H5] H6]. constructor.
   - apply nodupb_NoDup. exact H1.
   - intros m Hm. apply mod_ok_wf. rewrite forallb_forall in H2. apply H2. exact Hm.
   - destruct (creating s); [reflexivity|discriminate].
   - destruct (implementing s); [reflexivity|discriminate].
+  - destruct (featsaved s); [reflexivity|discriminate].
+  - intros m Hm Hs. rewrite forallb_forall in H6. specialize (H6 m Hm). rewrite Hs in H6. cbn in H6.
+    unfold plain in H6. destruct (snapshot_all (mods s) m); [reflexivity|discriminate].
 Qed.
 
 Lemma quiescent_core s : quiescent (core s) = quiescent s.
@@ -386,6 +391,7 @@ Record PI (s t : state) : Prop := {
   pi_creating : creating t = keys (news_of s t);
   pi_nodup : NoDup (keys (mods t));
   pi_impl : implementing t = [];
+  pi_fsaved : featsaved t = [];
   pi_evs : Forall (fun e => e = EvAdd) (evs t);
   pi_news : Forall fresh (news_of s t) }.
 
@@ -398,6 +404,7 @@ Proof.
   - unfold news_of. rewrite skipn_all. rewrite (wfs_creating _ W). reflexivity.
   - apply (wfs_nodup _ W).
   - apply (wfs_implementing _ W).
+  - apply (wfs_featsaved _ W).
   - rewrite He. constructor.
   - unfold news_of. rewrite skipn_all. constructor.
 Qed.
@@ -443,6 +450,7 @@ Proof.
   - rewrite news_upd_s. rewrite keys_upd by exact Hk. apply (pi_creating _ _ P).
   - rewrite keys_upd by exact Hk. apply (pi_nodup _ _ P).
   - apply (pi_impl _ _ P).
+  - apply (pi_fsaved _ _ P).
   - apply (pi_evs _ _ P).
   - rewrite news_upd_s. apply Forall_upd; [apply (pi_news _ _ P)|].
     intros m [H1 [H2 H3]]. destruct (Hf m) as [E1 [E2 E3]]. unfold fresh. rewrite E1, E2, E3. tauto.
@@ -502,6 +510,7 @@ Proof.
   - unfold keys. rewrite map_app. cbn [map]. fold (keys (mods t)).
     apply NoDup_snoc; [apply (pi_nodup _ _ P)|exact Hn].
   - apply (pi_impl _ _ P).
+  - apply (pi_fsaved _ _ P).
   - apply Forall_app. split; [apply (pi_evs _ _ P)|constructor; [reflexivity|constructor]].
   - unfold news_of. cbn [add_ev with_mods with_creating mods]. rewrite skipn_app_le by exact Hl. apply Forall_app.
     split; [apply (pi_news _ _ P)|].
@@ -590,6 +599,9 @@ Qed.
 (* implement / dep sets / compile: invariant QI                                                     *)
 (* ------------------------------------------------------------------------------------------------ *)
 (* old module m (before the operation) and what it is now, m'; imp = unres.implementing, D = keys of the dep sets *)
+(* name and if-feature of a feature: what lys_set_features never changes *)
+Definition fdecl (f : feat) : N * list N := (f_name f, f_deps f).
+
 Record qrel (imp D : list key) (m m' : modl) : Prop := {
   q_key : mkey m' = mkey m;
   q_imps : m_imps m' = m_imps m;
@@ -600,7 +612,8 @@ Record qrel (imp D : list key) (m m' : modl) : Prop := {
   q_impl2 : m_impl m' = true -> m_impl m = true \/ In (mkey m) imp;
   q_imp : In (mkey m) imp -> m_impl m = false;
   q_tc : m_tc m' = true -> m_impl m' = true;
-  q_comp : m_comp m' = m_comp m \/ (m_tc m' = true /\ In (mkey m) D) \/ In (mkey m) imp }.
+  q_comp : m_comp m' = m_comp m \/ (m_tc m' = true /\ In (mkey m) D) \/ In (mkey m) imp;
+  q_fdecl : map fdecl (m_feats m') = map fdecl (m_feats m) }.
 
 Record QI (s : state) (imp D : list key) (t : state) : Prop := {
   qi_expl : explicit t = explicit s;
@@ -645,6 +658,7 @@ Proof.
     + intros [].
     + intros H. rewrite E7, (wf_tc _ _ Wm) in H. discriminate.
     + left. exact E8.
+    + rewrite E9. reflexivity.
 Qed.
 
 Lemma PI_feats s t : PI s t -> map m_feats (olds_of s t) = map m_feats (mods s).
@@ -713,6 +727,7 @@ Record same_but (N : modl -> modl) (t t' : state) : Prop := {
   sb_expl : explicit t' = explicit t;
   sb_creating : creating t' = creating t;
   sb_implementing : implementing t' = implementing t;
+  sb_featsaved : featsaved t' = featsaved t;
   sb_mods : map N (mods t') = map N (mods t) }.
 
 Lemma same_but_refl N t : same_but N t t.
@@ -798,32 +813,47 @@ Qed.
 (* ------------------------------------------------------------------------------------------------ *)
 Definition nrm_B (m : modl) : modl := set_tc false (set_comp None (set_impl false (set_feats [] m))).
 
+(* the state after the feature states were remembered *)
+Definition saved (t : state) (k : key) (sel : fsel) (m : modl) : state :=
+  match sel with
+  | FNull => t
+  | _ => with_featsaved (featsaved t ++ [(k, map f_on (m_feats m))]) t
+  end.
+
+Lemma mods_saved t k sel m : mods (saved t k sel m) = mods t.
+Proof. destruct sel; reflexivity. Qed.
+Lemma implementing_saved t k sel m : implementing (saved t k sel m) = implementing t.
+Proof. destruct sel; reflexivity. Qed.
+
 Inductive si_case (t : state) (k : key) (sel : fsel) : state * bool -> Prop :=
-| SiFail : si_case t k sel (t, false)
-| SiSame : si_case t k sel (t, true)
+| SiNone : find_mod k (mods t) = None -> si_case t k sel (t, false)
+| SiFail m : find_mod k (mods t) = Some m -> si_case t k sel (saved t k sel m, false)
+| SiSame m : find_mod k (mods t) = Some m -> si_case t k sel (saved t k sel m, true)
 | SiFeat m fs : find_mod k (mods t) = Some m -> m_impl m = true -> set_features (m_feats m) sel = SfOk fs ->
-    si_case t k sel (add_ev EvChange (upd_s k (fun m => set_tc true (set_feats fs m)) t), true)
+    si_case t k sel (add_ev EvChange (upd_s k (fun m => set_tc true (set_feats fs m)) (saved t k sel m)), true)
 | SiImpl m fs : find_mod k (mods t) = Some m -> m_impl m = false ->
     (set_features (m_feats m) sel = SfOk fs \/ fs = m_feats m) ->
     si_case t k sel
       (fst (has_compiled_import_r (S (length (mods t)))
               (with_implementing (implementing t ++ [k])
-                 (add_ev EvChange (upd_s k (fun m => set_tc true (set_impl true (set_feats fs m))) t))) k), true).
+                 (add_ev EvChange (upd_s k (fun m => set_tc true (set_impl true (set_feats fs m))) (saved t k sel m)))) k), true).
 
 Lemma let_fst_true {A B} (x : A * B) : (let '(a, _) := x in (a, true)) = (fst x, true).
 Proof. destruct x; reflexivity. Qed.
 
 Lemma set_implemented_cases t k sel : si_case t k sel (set_implemented t k sel).
 Proof.
-  unfold set_implemented. destruct (find_mod k (mods t)) as [m|] eqn:F; [|constructor].
+  unfold set_implemented. destruct (find_mod k (mods t)) as [m|] eqn:F; [|constructor; exact F].
+  fold (saved t k sel m). rewrite (mods_saved t k sel m).
   destruct (m_impl m) eqn:Ei.
-  - destruct (set_features (m_feats m) sel) as [fs| |] eqn:Es; try constructor.
-    eapply SiFeat; eassumption.
-  - destruct (get_implemented (m_name m) (mods t)); [constructor|].
-    destruct (set_features (m_feats m) sel) as [fs| |] eqn:Es; [| |constructor].
-    + rewrite let_fst_true. cbn [upd_s with_mods mods with_implementing implementing add_ev]. rewrite upd_length.
+  - destruct (set_features (m_feats m) sel) as [fs| |] eqn:Es; try (econstructor; eassumption).
+  - destruct (get_implemented (m_name m) (mods t)); [eapply SiFail; exact F|].
+    destruct (set_features (m_feats m) sel) as [fs| |] eqn:Es; [| |eapply SiFail; exact F].
+    + rewrite let_fst_true. cbn [upd_s with_mods mods with_implementing implementing add_ev].
+      rewrite upd_length, (mods_saved t k sel m), (implementing_saved t k sel m).
       eapply (SiImpl t k sel m fs); [exact F|exact Ei|left; exact Es].
-    + rewrite let_fst_true. cbn [upd_s with_mods mods with_implementing implementing add_ev]. rewrite upd_length.
+    + rewrite let_fst_true. cbn [upd_s with_mods mods with_implementing implementing add_ev].
+      rewrite upd_length, (mods_saved t k sel m), (implementing_saved t k sel m).
       eapply (SiImpl t k sel m (m_feats m)); [exact F|exact Ei|right; reflexivity].
 Qed.
 
@@ -831,7 +861,7 @@ Lemma qrel_mono imp D imp' D' m m' :
   qrel imp D m m' -> incl imp imp' -> incl D D' -> (forall k, In k imp' -> ~ In k imp -> k <> mkey m) ->
   qrel imp' D' m m'.
 Proof.
-  intros Q Hi Hd Hn. destruct Q as [Q1 Q2 Q3 Q4 Q5 Q6 Q7 Q8 Q9 Q10]. constructor; try assumption.
+  intros Q Hi Hd Hn. destruct Q as [Q1 Q2 Q3 Q4 Q5 Q6 Q7 Q8 Q9 Q10 Q11]. constructor; try assumption.
   - intros H. destruct (Q7 H) as [H'|H']; [left; exact H'|right; apply Hi; exact H'].
   - intros H. destruct (in_dec key_dec (mkey m) imp) as [H'|H']; [apply Q8; exact H'|].
     exfalso. apply (Hn _ H H'). reflexivity.
@@ -848,11 +878,11 @@ Qed.
 
 (* lys_implement: the module becomes implemented, marked, gets its features, and is recorded in implementing *)
 Lemma QI_implement s D t k m fs :
-  QI s [] D t -> find_mod k (mods t) = Some m -> m_impl m = false ->
+  QI s [] D t -> find_mod k (mods t) = Some m -> m_impl m = false -> map fdecl fs = map fdecl (m_feats m) ->
   QI s [k] D (with_implementing (implementing t ++ [k])
                 (add_ev EvChange (upd_s k (fun m => set_tc true (set_impl true (set_feats fs m))) t))).
 Proof.
-  intros Q F Hi. pose proof (qi_nodup _ _ _ _ Q) as Hnd.
+  intros Q F Hi Hfd. pose proof (qi_nodup _ _ _ _ Q) as Hnd.
   constructor; cbn [with_implementing add_ev explicit creating implementing mods].
   - apply (qi_expl _ _ _ _ Q).
   - cbn [upd_s with_mods mods]. rewrite upd_length. apply (qi_len _ _ _ _ Q).
@@ -863,16 +893,17 @@ Proof.
     { pose proof (qi_olds _ _ _ _ Q) as F0. clear -F0. induction F0 as [|x y l l' H F0 IH]; constructor.
       - split; [left; reflexivity|exact H].
       - eapply Forall2_impl; [|exact IH]. cbn. intros a b [H1 H2]. split; [right; exact H1|exact H2]. }
-    clear -F2 F Hi Hnd. induction F2 as [|a b l l' [Hin Hr] F2 IH]; cbn [upd map]; constructor; [|exact IH].
+    clear -F2 F Hi Hnd Hfd. induction F2 as [|a b l l' [Hin Hr] F2 IH]; cbn [upd map]; constructor; [|exact IH].
     destruct (key_eqb (mkey b) k) eqn:E.
     + apply key_eqb_eq in E.
       assert (b = m) by (eapply find_mod_is; [exact Hnd|exact F|apply (In_olds s t); exact Hin|exact E]). subst b.
-      destruct Hr as [Q1 Q2 Q3 Q4 Q5 Q6 Q7 Q8 Q9 Q10]. constructor; cbn; try assumption.
+      destruct Hr as [Q1 Q2 Q3 Q4 Q5 Q6 Q7 Q8 Q9 Q10 Q11]. constructor; cbn; try assumption.
       * intros _. reflexivity.
       * intros _. right. left. congruence.
       * intros _. destruct (m_impl a) eqn:Ea; [|reflexivity]. rewrite (Q6 eq_refl) in Hi. discriminate.
       * intros _. reflexivity.
       * right. right. left. congruence.
+      * rewrite Hfd. exact Q11.
     + apply key_eqb_neq in E. eapply qrel_mono; [exact Hr|intros x []|apply incl_refl|].
       intros k' [<-|[]] _ Heq. apply E. rewrite Heq. apply (q_key _ _ _ _ Hr).
 Qed.
@@ -880,10 +911,10 @@ Qed.
 Lemma same_but_weaken (N N' : modl -> modl) t t' :
   (forall m, N' m = N' (N m)) -> same_but N t t' -> same_but N' t t'.
 Proof.
-  intros H [E1 E2 E3 E4]. constructor; [exact E1|exact E2|exact E3|].
+  intros H [E1 E2 E3 E4 E5]. constructor; [exact E1|exact E2|exact E3|exact E4|].
   assert (E : forall l, map N' l = map N' (map N l)).
   { intros l. rewrite map_map. apply map_ext. exact H. }
-  rewrite E, E4, <- E. reflexivity.
+  rewrite E, E5, <- E. reflexivity.
 Qed.
 
 Lemma hci_loop_same_but rec imps :
@@ -984,7 +1015,7 @@ Proof.
 Qed.
 
 Lemma same_but_sym N t t' : same_but N t t' -> same_but N t' t.
-Proof. intros [E1 E2 E3 E4]. constructor; congruence. Qed.
+Proof. intros [E1 E2 E3 E4 E5]. constructor; congruence. Qed.
 
 (* the abstract compiled schema only reads features, imports and keys *)
 Lemma snapshot_ext l l' m m' :
@@ -1032,7 +1063,7 @@ Definition all_tc (t : state) (ks : list key) : Prop :=
 Lemma qrel_set_comp imp D m m' c :
   m_tc m' = true -> In (mkey m) D -> qrel imp D m m' -> qrel imp D m (set_comp c m').
 Proof.
-  intros Ht Hd [Q1 Q2 Q3 Q4 Q5 Q6 Q7 Q8 Q9 Q10]. constructor; cbn; try assumption.
+  intros Ht Hd [Q1 Q2 Q3 Q4 Q5 Q6 Q7 Q8 Q9 Q10 Q11]. constructor; cbn; try assumption.
   right. left. split; assumption.
 Qed.
 
@@ -1270,7 +1301,7 @@ Proof.
   - unfold olds_of. cbn [with_mods mods]. rewrite firstn_map. fold (olds_of s t2).
     apply Forall2_map_r_in; [apply (qi_olds _ _ _ _ Q2)|]. intros m0 m' H0 H' Hr. unfold h.
     destruct (kmem (mkey m') ds) eqn:Ek; [|exact Hr]. apply kmem_In in Ek.
-    pose proof Hr as [R1 R2 R3 R4 R5 R6 R7 R8 R9 R10]. constructor; cbn; try assumption; [discriminate|].
+    pose proof Hr as [R1 R2 R3 R4 R5 R6 R7 R8 R9 R10 R11]. constructor; cbn; try assumption; [discriminate|].
     destruct R10 as [Hc|[[Htc HD]|Hi]]; [left; exact Hc| |right; right; exact Hi].
     destruct (in_dec key_dec (mkey m0) imp) as [Hi|Hni]; [right; right; exact Hi|]. left.
     assert (Hin' : In m' (mods t2)) by (apply (In_olds s t2); exact H').
@@ -1696,10 +1727,10 @@ Lemma frame_eq_trans t1 t2 t3 : frame_eq t1 t2 -> frame_eq t2 t3 -> frame_eq t1 
 Proof. intros [] []. constructor; congruence. Qed.
 Lemma same_but_frame N t t' : (forall m, mkey (N m) = mkey m) -> same_but N t t' -> frame_eq t t'.
 Proof.
-  intros HN [E1 E2 E3 E4]. constructor; [exact E1|exact E2|].
+  intros HN [E1 E2 E3 E4 E5]. constructor; [exact E1|exact E2|].
   assert (G : forall l, keys l = keys (map N l)).
   { intros l. unfold keys. rewrite map_map. apply map_ext. intros m. symmetry. apply HN. }
-  rewrite G, E4, <- G. reflexivity.
+  rewrite G, E5, <- G. reflexivity.
 Qed.
 Lemma frame_eq_upd t k g : (forall m, mkey (g m) = mkey m) -> frame_eq t (upd_s k g t).
 Proof. intros H. constructor; try reflexivity. cbn [upd_s with_mods mods]. apply keys_upd. exact H. Qed.
@@ -1779,12 +1810,16 @@ Proof.
   assert (Hdc : forall t2, frame_eq t t2 -> frame_eq t (fst (fst (if explicit t2 then (t2, [], true) else dc t2 k)))).
   { intros t2 F2. destruct (explicit t2); [exact F2|]. eapply frame_eq_trans; [exact F2|].
     apply (same_but_frame no_tc_comp); [intros m; reflexivity|apply dc_same_but]. }
-  destruct (set_implemented_cases t k sel) as [| |m fs F Hi Hs|m fs F Hi Hs]; cbn [negb fst].
+  assert (Hsv : forall m, frame_eq t (saved t k sel m)) by (intros m; destruct sel; constructor; reflexivity).
+  destruct (set_implemented_cases t k sel) as [F|m F|m F|m fs F Hi Hs|m fs F Hi Hs]; cbn [negb fst].
   - apply frame_eq_refl.
-  - apply Hdc. apply frame_eq_refl.
-  - apply Hdc. constructor; try reflexivity. cbn [add_ev upd_s with_mods mods]. apply keys_upd. reflexivity.
+  - apply Hsv.
+  - apply Hdc. apply Hsv.
+  - apply Hdc. eapply frame_eq_trans; [apply (Hsv m)|]. constructor; try reflexivity.
+    cbn [add_ev upd_s with_mods mods]. apply keys_upd. reflexivity.
   - apply Hdc. eapply frame_eq_trans; [|apply (same_but_frame no_tc); [intros x; reflexivity|apply has_compiled_import_r_same_but]].
-    constructor; try reflexivity. cbn [with_implementing add_ev upd_s with_mods mods]. apply keys_upd. reflexivity.
+    eapply frame_eq_trans; [apply (Hsv m)|]. constructor; try reflexivity.
+    cbn [with_implementing add_ev upd_s with_mods mods]. apply keys_upd. reflexivity.
 Qed.
 
 
@@ -2174,18 +2209,28 @@ Proof.
   pose proof (rm_step_LJ t dss k J) as J1. destruct (rm_step (t, dss) k) as [t1 dss1]. apply IH. exact J1.
 Qed.
 
+Lemma restore_features_kl t : kl (mods (restore_features t)) = kl (mods t).
+Proof.
+  unfold restore_features. generalize (rev (featsaved t)). intros l. revert t.
+  induction l as [|e l IH]; intros t; cbn [fold_left]; [reflexivity|]. rewrite IH.
+  cbn [upd_s with_mods mods]. apply kl_upd. intros m; split; reflexivity.
+Qed.
+
 Lemma revert_LJ t dss : LJs t -> LJs (revert t dss).
 Proof.
-  intros J. unfold revert.
-  set (s1 := fold_left _ (implementing t) t).
+  intros J0. unfold revert.
+  assert (J : LJs (restore_features t)) by (unfold LJs; eapply LJ_kl; [apply restore_features_kl|exact J0]).
+  set (t0 := restore_features t) in *.
+  set (s1 := fold_left _ (implementing t0) t0).
   assert (J1 : LJs s1).
   { unfold s1. rewrite (fold_upd_mods (fun m => set_tc false (set_comp None (set_impl false m)))) by reflexivity.
     unfold LJs. cbn [with_mods mods]. eapply LJ_kl; [|exact J]. unfold kl. rewrite map_map. apply map_ext.
-    intros m. destruct (kmem (mkey m) (implementing t)); reflexivity. }
+    intros m. destruct (kmem (mkey m) (implementing t0)); reflexivity. }
   pose proof (fold_rm_step_LJ (creating s1) s1 dss J1) as J2.
   destruct (fold_left rm_step (creating s1) (s1, dss)) as [s2 dss2]. cbn [fst] in J2.
-  destruct (implementing s2); [exact J2|].
-  unfold LJs. eapply LJ_kl; [|exact J2]. apply (same_but_kl no_tc_comp); [intros m; split; reflexivity|apply same_but_compile_all].
+  assert (J3 : LJs (fst (compile_all dss2 s2))).
+  { unfold LJs. eapply LJ_kl; [|exact J2]. apply (same_but_kl no_tc_comp); [intros m; split; reflexivity|apply same_but_compile_all]. }
+  destruct (implementing s2); [destruct (featsaved s2)|]; assumption.
 Qed.
 
 Lemma iac_kl t k sel : kl (mods (fst (fst (implement_and_compile t k sel)))) = kl (mods t).
@@ -2195,12 +2240,13 @@ Proof.
             kl (mods (fst (fst (if explicit t2 then (t2, [], true) else dc t2 k)))) = kl (mods t)).
   { intros t2 E2. destruct (explicit t2); [exact E2|]. rewrite <- E2.
     apply (same_but_kl no_tc_comp); [intros m; split; reflexivity|apply dc_same_but]. }
-  destruct (set_implemented_cases t k sel) as [| |m fs F Hi Hs|m fs F Hi Hs]; cbn [negb fst].
+  destruct (set_implemented_cases t k sel) as [F|m F|m F|m fs F Hi Hs|m fs F Hi Hs]; cbn [negb fst].
   - reflexivity.
-  - apply Hdc. reflexivity.
-  - apply Hdc. cbn [add_ev upd_s with_mods mods]. apply kl_upd. intros x; split; reflexivity.
+  - rewrite mods_saved. reflexivity.
+  - apply Hdc. rewrite mods_saved. reflexivity.
+  - apply Hdc. cbn [add_ev upd_s with_mods mods]. rewrite mods_saved. apply kl_upd. intros x; split; reflexivity.
   - apply Hdc. rewrite (same_but_kl no_tc _ _ (fun x => conj eq_refl eq_refl) (has_compiled_import_r_same_but _ _ k)).
-    cbn [with_implementing add_ev upd_s with_mods mods]. apply kl_upd. intros x; split; reflexivity.
+    cbn [with_implementing add_ev upd_s with_mods mods]. rewrite mods_saved. apply kl_upd. intros x; split; reflexivity.
 Qed.
 
 Lemma attempt_LJ R t o : LJs t -> LJs (fst (fst (attempt R t o))).
@@ -2317,12 +2363,12 @@ Qed.
 
 Lemma nrm_L_qrel imp D a b b' : nrm_L b' = nrm_L b -> qrel imp D a b -> qrel imp D a b'.
 Proof.
-  intros E [R1 R2 R3 R4 R5 R6 R7 R8 R9 R10].
+  intros E [R1 R2 R3 R4 R5 R6 R7 R8 R9 R10 R11].
   pose proof (f_equal mkey E) as E1. pose proof (f_equal m_imps E) as E2. pose proof (f_equal m_cfault E) as E3.
   pose proof (f_equal m_single E) as E4. pose proof (f_equal m_hasdep E) as E5. pose proof (f_equal m_impl E) as E6.
-  pose proof (f_equal m_tc E) as E7. pose proof (f_equal m_comp E) as E8.
-  cbn in E1, E2, E3, E4, E5, E6, E7, E8. change (mkey b' = mkey b) in E1.
-  constructor; rewrite ?E1, ?E2, ?E3, ?E4, ?E5, ?E6, ?E7, ?E8; assumption.
+  pose proof (f_equal m_tc E) as E7. pose proof (f_equal m_comp E) as E8. pose proof (f_equal m_feats E) as E9.
+  cbn in E1, E2, E3, E4, E5, E6, E7, E8, E9. change (mkey b' = mkey b) in E1.
+  constructor; rewrite ?E1, ?E2, ?E3, ?E4, ?E5, ?E6, ?E7, ?E8, ?E9; assumption.
 Qed.
 
 Lemma Forall2_compose {A B} (R R' : A -> B -> Prop) (S : B -> B -> Prop) l l1 l2 :
@@ -2333,14 +2379,306 @@ Proof.
   - apply IH; assumption.
 Qed.
 
-Lemma revert_restores s imp dss mid :
-  wf_state s -> QI s imp (concat dss) mid -> FE s mid -> LJs s -> LJs mid ->
-  implementing mid = imp -> creating mid = keys (news_of s mid) -> (imp = [] -> dss = []) ->
-  Forall2 frel (mods s) (mods (erase (revert mid dss))).
+
+(* ------------------------------------------------------------------------------------------------ *)
+(* the compilation of the failing call itself: the features of the module it was given may differ    *)
+(* ------------------------------------------------------------------------------------------------ *)
+(* the compiled schema of the old modules of a dep set would be what it was *)
+Definition snap_ok (s t : state) (ds : list key) : Prop :=
+  forall m0 m', In m0 (mods s) -> In m' (mods t) -> mkey m' = mkey m0 -> In (mkey m0) ds ->
+    snapshot (mods t) m' = snapshot (mods s) m0.
+
+Lemma snapshot_no_comp l a b : no_comp a = no_comp b -> snapshot l a = snapshot l b.
 Proof.
-  intros W Q F Js Jm Himp Hcr Hnil.
+  intros E. apply snapshot_ext; [exact (f_equal m_feats E)|exact (f_equal m_imps E)|].
+  intros ik _. destruct (find_mod ik l); [reflexivity|exact I].
+Qed.
+
+Lemma depset_r_QI_sn s imp D ds t :
+  wf_state s -> QI s imp D t -> snap_ok s t ds -> incl ds D ->
+  QI s imp D (fst (depset_r ds t)) /\ same_but no_tc_comp t (fst (depset_r ds t)).
+Proof.
+  intros W Q SN Hd. unfold depset_r.
+  pose proof (compile_mods_QI s imp D ds t [] Q Hd) as H. cbv zeta in H.
+  destruct (compile_mods ds t []) as [[t1 done] ok]. cbn [fst snd] in H.
+  destruct H as [Q1 [S1 [T1 [I1 [C1 _]]]]]; [intros k m []|].
+  destruct (negb ok) eqn:Eok; [cbn [fst]; split; [exact Q1|apply no_comp_weaken; exact S1]|].
+  destruct (existsb _ done); [cbn [fst]; split; [exact Q1|apply no_comp_weaken; exact S1]|].
+  assert (Hdd : incl done D) by (intros x Hx; apply Hd; apply I1 in Hx; exact Hx).
+  pose proof (prune_mods_QI s imp D done t1 Q1 Hdd T1) as H. cbv zeta in H.
+  destruct (prune_mods done t1) as [t2 ok2]. cbn [fst snd] in H. destruct H as [Q2 [S2 P2]].
+  assert (S12 : same_but no_comp t t2) by (eapply same_but_trans; eassumption).
+  destruct (negb ok2) eqn:Eok2; [cbn [fst]; split; [exact Q2|apply no_comp_weaken; exact S12]|].
+  apply negb_false_iff in Eok, Eok2. cbn [fst].
+  rewrite (fold_upd_mods (set_tc false)) by reflexivity.
+  split.
+  2:{ eapply same_but_trans; [apply no_comp_weaken; exact S12|]. constructor; try reflexivity.
+      cbn [with_mods mods]. rewrite map_map. apply map_ext. intros m. destruct (kmem (mkey m) ds); destruct m; reflexivity. }
+  set (h := fun m => if kmem (mkey m) ds then set_tc false m else m).
+  assert (Hhk : forall m, mkey (h m) = mkey m) by (intros m; unfold h; destruct (kmem (mkey m) ds); reflexivity).
+  constructor; cbn [with_mods explicit creating implementing mods].
+  - apply (qi_expl _ _ _ _ Q2).
+  - rewrite map_length. apply (qi_len _ _ _ _ Q2).
+  - unfold keys. rewrite map_map. rewrite (map_ext _ mkey Hhk). apply (qi_nodup _ _ _ _ Q2).
+  - unfold olds_of. cbn [with_mods mods]. rewrite firstn_map. fold (olds_of s t2).
+    apply Forall2_map_r_in; [apply (qi_olds _ _ _ _ Q2)|]. intros m0 m' H0 H' Hr. unfold h.
+    destruct (kmem (mkey m') ds) eqn:Ek; [|exact Hr]. apply kmem_In in Ek.
+    pose proof Hr as [R1 R2 R3 R4 R5 R6 R7 R8 R9 R10 R11]. constructor; cbn; try assumption; [discriminate|].
+    destruct R10 as [Hc|[[Htc HD]|Hi]]; [left; exact Hc| |right; right; exact Hi].
+    destruct (in_dec key_dec (mkey m0) imp) as [Hi|Hni]; [right; right; exact Hi|]. left.
+    assert (Hin' : In m' (mods t2)) by (apply (In_olds s t2); exact H').
+    assert (Fm : find_mod (mkey m') (mods t2) = Some m') by (apply find_mod_unique; [apply (qi_nodup _ _ _ _ Q2)|exact Hin'|reflexivity]).
+    destruct (same_but_find no_comp t t2 (mkey m') m') as [mt [Ft Et]]; [intros x; destruct x; reflexivity|exact S12|exact Fm|].
+    assert (Htct : m_tc mt = true) by (rewrite <- Htc; exact (eq_sym (f_equal m_tc Et))).
+    pose proof (C1 Eok (mkey m') mt Ek Ft Htct) as Hdone.
+    rewrite (P2 Eok2 (mkey m') m' Hdone Fm).
+    destruct (same_but_snapshot t t2 m' (no_comp_weaken _ _ S12)) as [Es _]. rewrite Es.
+    rewrite (snapshot_no_comp (mods t) m' mt Et).
+    destruct (find_mod_In _ _ _ Ft) as [Hmt Kmt].
+    rewrite (SN m0 mt H0 Hmt (eq_trans Kmt R1)) by (rewrite <- R1; exact Ek).
+    assert (Him0 : m_impl m0 = true) by (destruct (R7 (R9 Htc)) as [E|E]; [exact E|contradiction]).
+    destruct (wf_comp_impl _ _ (wfs_mods _ W m0 H0) Him0) as [E _]. symmetry. exact E.
+Qed.
+
+Lemma depset_r_QI_fail s imp D ds t :
+  QI s imp D t -> incl ds D -> snd (depset_r ds t) = false -> QI s imp D (fst (depset_r ds t)).
+Proof.
+  intros Q Hd. unfold depset_r.
+  pose proof (compile_mods_QI s imp D ds t [] Q Hd) as H. cbv zeta in H.
+  destruct (compile_mods ds t []) as [[t1 done] ok]. cbn [fst snd] in H.
+  destruct H as [Q1 [S1 [T1 [I1 _]]]]; [intros k m []|].
+  destruct (negb ok); [intros _; exact Q1|]. destruct (existsb _ done); [intros _; exact Q1|].
+  assert (Hdd : incl done D) by (intros x Hx; apply Hd; apply I1 in Hx; exact Hx).
+  pose proof (prune_mods_QI s imp D done t1 Q1 Hdd T1) as H. cbv zeta in H.
+  destruct (prune_mods done t1) as [t2 ok2]. cbn [fst snd] in H. destruct H as [Q2 _].
+  destruct (negb ok2); [intros _; exact Q2|]. cbn [snd]. discriminate.
+Qed.
+
+(* the failing compilation: every dep set before the failing one keeps its compiled schemas *)
+Lemma compile_all_QI_fail s imp D : wf_state s -> forall dss t,
+  QI s imp D t -> (forall ds, In ds dss -> incl ds D) ->
+  (forall ds t', In ds (removelast dss) -> QI s imp D t' -> same_but no_tc_comp t t' -> snap_ok s t' ds) ->
+  snd (compile_all dss t) = false -> QI s imp D (fst (compile_all dss t)).
+Proof.
+  intros W. induction dss as [|ds dss IH]; intros t Q Hd Hsn; cbn [compile_all]; [discriminate|].
+  destruct (negb (depset_check_features ds t)); [intros _; exact Q|].
+  assert (Hds : incl ds D) by (apply Hd; left; reflexivity).
+  pose proof (depset_r_QI_fail s imp D ds t Q Hds) as Hf.
+  destruct (depset_r ds t) as [t1 ok] eqn:Er. cbn [fst snd] in Hf.
+  destruct ok; cbn [negb]; [|intros _; apply Hf; reflexivity].
+  destruct dss as [|ds2 dss']; [cbn; discriminate|].
+  assert (SN : snap_ok s t ds) by (apply (Hsn ds t); [left; reflexivity|exact Q|apply same_but_refl]).
+  destruct (depset_r_QI_sn s imp D ds t W Q SN Hds) as [Q1 S1]. rewrite Er in Q1, S1. cbn [fst] in Q1, S1.
+  apply IH; [exact Q1|intros d Hin; apply Hd; right; exact Hin|].
+  intros d t' Hin Q' S'. apply (Hsn d t'); [right; exact Hin|exact Q'|eapply same_but_trans; eassumption].
+Qed.
+
+(* modules that form a dep set of their own depend on no feature: their compiled schema is always the same *)
+Lemma snapshot_all_ext l l' m m' :
+  map f_name (m_feats m') = map f_name (m_feats m) -> m_imps m' = m_imps m ->
+  (forall ik, In ik (m_imps m) ->
+     match find_mod ik l, find_mod ik l' with
+     | Some a, Some b => map f_name (m_feats b) = map f_name (m_feats a)
+     | None, None => True
+     | _, _ => False
+     end) ->
+  snapshot_all l' m' = snapshot_all l m.
+Proof.
+  intros Hf Hi Hfind. unfold snapshot_all. rewrite Hf, Hi. f_equal. f_equal.
+  apply map_ext_in. intros [i ik] Hin. apply in_combine_r in Hin. cbn [fst snd]. specialize (Hfind ik Hin).
+  destruct (find_mod ik l), (find_mod ik l'); try contradiction; [rewrite Hfind|]; reflexivity.
+Qed.
+
+Lemma concat_nil {A} (ll : list (list A)) : concat ll = [] -> forall x, In x ll -> x = [].
+Proof.
+  induction ll as [|a ll IH]; cbn [concat]; intros H x Hin; [destruct Hin|].
+  apply app_eq_nil in H. destruct H as [Ha Hl]. destruct Hin as [<-|Hin]; [exact Ha|apply IH; assumption].
+Qed.
+Lemma concat_all_nil {A} (ll : list (list A)) : (forall x, In x ll -> x = []) -> concat ll = [].
+Proof.
+  induction ll as [|a ll IH]; intros H; [reflexivity|]. cbn [concat]. rewrite (H a (or_introl eq_refl)). apply IH.
+  intros x Hx. apply H. right. exact Hx.
+Qed.
+
+Lemma snapshot_nil l m : snapshot_all l m = [] -> snapshot l m = [].
+Proof.
+  unfold snapshot_all, snapshot. intros H. apply app_eq_nil in H. destruct H as [H1 H2].
+  apply map_eq_nil in H1. apply map_eq_nil in H1. rewrite H1. cbn [enabled_names filter map app].
+  apply concat_all_nil. intros x Hx. apply in_map_iff in Hx. destruct Hx as [ik [<- Hik]].
+  pose proof (concat_nil _ H2 _ (in_map _ _ ik Hik)) as E. cbn beta in E.
+  destruct (find_mod (snd ik) l) as [im|]; [|reflexivity].
+  apply map_eq_nil in E. apply map_eq_nil in E. rewrite E. reflexivity.
+Qed.
+
+Definition single_ds (t : state) (ds : list key) : Prop := forall x, In x ds -> is_single t x = true.
+
+Lemma fdecl_names fs fs' : map fdecl fs' = map fdecl fs -> map f_name fs' = map f_name fs.
+Proof.
+  intros H. assert (E : forall l, map f_name l = map fst (map fdecl l)) by (intros l; rewrite map_map; reflexivity).
+  rewrite E, H, <- E. reflexivity.
+Qed.
+
+Lemma old_snapshot_all s imp D t m0 m' :
+  wf_state s -> QI s imp D t -> In m0 (mods s) -> qrel imp D m0 m' -> snapshot_all (mods t) m' = snapshot_all (mods s) m0.
+Proof.
+  intros W Q H0 Hr. apply snapshot_all_ext; [apply fdecl_names; apply (q_fdecl _ _ _ _ Hr)|apply (q_imps _ _ _ _ Hr)|].
+  intros ik Hik. pose proof (wf_imps _ _ (wfs_mods _ W m0 H0) ik Hik) as Hin.
+  destruct (find_mod_some_in ik (mods s) Hin) as [a Fa]. rewrite Fa.
+  destruct (find_mod_Forall2 _ ik _ _ a (QI_keyed s imp D t Q) Fa) as [b [Fb Hrb]].
+  rewrite (olds_news s t), find_mod_app, Fb. apply fdecl_names. apply (q_fdecl _ _ _ _ Hrb).
+Qed.
+
+Lemma plain_snap_ok s imp D t ds : wf_state s -> QI s imp D t -> single_ds t ds -> snap_ok s t ds.
+Proof.
+  intros W Q Hs m0 m' H0 H' Hk Hin.
+  pose proof (partner (qrel imp D) s t m0 m' (QI_keyed s imp D t Q) (qi_nodup _ _ _ _ Q) H0 H' Hk) as Hr.
+  assert (Hsm : m_single m0 = true).
+  { rewrite <- (q_single _ _ _ _ Hr). specialize (Hs (mkey m0) Hin). unfold is_single in Hs.
+    rewrite (find_mod_unique (mkey m0) (mods t) m' (qi_nodup _ _ _ _ Q) H' Hk) in Hs. exact Hs. }
+  pose proof (wfs_plain _ W m0 H0 Hsm) as E0.
+  rewrite (snapshot_nil _ _ E0). apply snapshot_nil. rewrite (old_snapshot_all s imp D t m0 m' W Q H0 Hr). exact E0.
+Qed.
+
+Lemma In_removelast {A} (l : list A) x : In x (removelast l) -> In x l.
+Proof.
+  induction l as [|a l IH]; cbn [removelast]; [tauto|]. destruct l as [|b l]; [intros []|].
+  intros [<-|H]; [left; reflexivity|right; apply IH; exact H].
+Qed.
+
+Lemma create_single_shape s : forall fuel i cs main,
+  (forall ds, In ds main -> single_ds s ds) -> forall ds, In ds (snd (create_single fuel s i cs main)) -> single_ds s ds.
+Proof.
+  induction fuel as [|fuel IH]; intros i cs main Hm; cbn [create_single snd]; [exact Hm|].
+  destruct (nth_error cs i) as [k|]; [|exact Hm]. destruct (is_single s k) eqn:Es; [|apply IH; exact Hm].
+  apply IH. intros ds Hin. apply in_app_or in Hin. destruct Hin as [Hin|[<-|[]]]; [apply Hm; exact Hin|].
+  intros x [<-|[]]. exact Es.
+Qed.
+
+Lemma dep_sets_create_shape t k :
+  forall ds, In ds (removelast (snd (dep_sets_create t (Some k)))) -> single_ds t ds.
+Proof.
+  unfold dep_sets_create. pose proof (create_single_shape t (S (2 * length (map mkey (mods t)))) 0 (map mkey (mods t)) []) as Hs.
+  destruct (create_single _ t 0 _ []) as [cs1 main1]. cbn [snd] in Hs.
+  assert (Hm : forall ds, In ds main1 -> single_ds t ds) by (apply Hs; intros ds []).
+  destruct (negb (kmem k cs1)); [cbn [snd]; intros ds Hin; apply Hm; apply In_removelast; exact Hin|].
+  destruct (length (map mkey (mods t))) as [|n] eqn:El; cbn [dep_sets_loop].
+  - cbn [snd]. destruct cs1; cbn [snd]; try (intros ds Hin; apply Hm; apply In_removelast; exact Hin).
+    destruct (dep_dfs _ t k _) as [[[cs2 ds0] aux] oof]. cbn [snd]. rewrite removelast_last. exact Hm.
+  - destruct cs1; cbn [snd]; try (intros ds Hin; apply Hm; apply In_removelast; exact Hin).
+    destruct (dep_dfs _ t k _) as [[[cs2 ds0] aux] oof]. cbn [snd]. rewrite removelast_last. exact Hm.
+Qed.
+
+(* ------------------------------------------------------------------------------------------------ *)
+(* the remembered feature states                                                                    *)
+(* ------------------------------------------------------------------------------------------------ *)
+Lemma restore_bits_fdecl_id : forall fs' fs, map fdecl fs' = map fdecl fs -> restore_bits fs' (map f_on fs) = fs.
+Proof.
+  induction fs' as [|f' fs' IH]; intros [|f fs] H; cbn in H; try discriminate; [reflexivity|].
+  inversion H as [[H1 H2 H3]]. cbn [map restore_bits]. rewrite (IH fs H3), H1, H2. destruct f; reflexivity.
+Qed.
+Lemma fdecl_restore_bits : forall fs bits, map fdecl (restore_bits fs bits) = map fdecl fs.
+Proof.
+  induction fs as [|f fs IH]; intros [|b bits]; cbn [restore_bits map]; try reflexivity. rewrite IH. reflexivity.
+Qed.
+
+Lemma restore_features_nil t : featsaved t = [] -> restore_features t = t.
+Proof. intros H. unfold restore_features. rewrite H. reflexivity. Qed.
+Lemma restore_features_one t k bits : featsaved t = [(k, bits)] ->
+  restore_features t = upd_s k (fun m => set_feats (restore_bits (m_feats m) bits) m) t.
+Proof. intros H. unfold restore_features. rewrite H. reflexivity. Qed.
+
+Definition nrm_F (m : modl) : modl := set_feats [] m.
+
+Lemma restore_features_same_but t : same_but nrm_F t (restore_features t).
+Proof.
+  unfold restore_features. generalize (rev (featsaved t)). intros l. revert t.
+  induction l as [|e l IH]; intros t; cbn [fold_left]; [apply same_but_refl|].
+  eapply same_but_trans; [|apply IH]. apply same_but_upd. intros m; reflexivity.
+Qed.
+
+Lemma qrel_set_feats imp D m m' fs : map fdecl fs = map fdecl (m_feats m') -> qrel imp D m m' -> qrel imp D m (set_feats fs m').
+Proof.
+  intros H [Q1 Q2 Q3 Q4 Q5 Q6 Q7 Q8 Q9 Q10 Q11]. constructor; cbn; try assumption. rewrite H. exact Q11.
+Qed.
+
+Lemma QI_restore s imp D t : QI s imp D t -> QI s imp D (restore_features t).
+Proof.
+  unfold restore_features. generalize (rev (featsaved t)). intros l. revert t.
+  induction l as [|e l IH]; intros t Q; cbn [fold_left]; [exact Q|]. apply IH.
+  apply QI_upd; [exact Q|reflexivity|]. intros m m' _ _ Hr. apply qrel_set_feats; [apply fdecl_restore_bits|exact Hr].
+Qed.
+
+Lemma Forall2_firstn {A B} (R : A -> B -> Prop) n : forall l l', Forall2 R l l' -> Forall2 R (firstn n l) (firstn n l').
+Proof.
+  induction n as [|n IH]; intros l l' F; [constructor|]. destruct F; [constructor|]. cbn [firstn]. constructor; [assumption|apply IH; assumption].
+Qed.
+
+(* the feature states of the old modules after the restore: what they were before the operation.
+   t1 = end of the parse phase, k = the module the operation was given (m in t1), mid = where it failed *)
+Definition feats_but (k : key) (x x' : modl) : Prop :=
+  mkey x' = mkey x /\ (mkey x <> k -> m_feats x' = m_feats x) /\ map fdecl (m_feats x') = map fdecl (m_feats x).
+
+Definition ff (x : modl) : key * list feat := (mkey x, m_feats x).
+
+Lemma FE_of_map s t : map ff (olds_of s t) = map ff (mods s) -> FE s t.
+Proof.
+  intros E. unfold FE. apply Forall2_map_eq in E. eapply Forall2_impl; [|exact E]. cbn.
+  intros a b H. split; [exact (f_equal fst H)|exact (f_equal snd H)].
+Qed.
+Lemma map_of_FE s t : FE s t -> map ff (olds_of s t) = map ff (mods s).
+Proof.
+  intros F. apply Forall2_map_eq. eapply Forall2_impl; [|exact F]. cbn. intros a b [H1 H2]. unfold ff. congruence.
+Qed.
+
+Lemma PI_FE' s t : PI s t -> FE s t.
+Proof.
+  intros P. pose proof (map_eq_Forall2 _ _ _ (pi_olds _ _ P)) as F. eapply Forall2_impl; [|exact F]. cbn.
+  intros a b E. apply clr_flags_fields in E. tauto.
+Qed.
+
+Lemma restore_map l k m bits : NoDup (keys l) -> find_mod k l = Some m -> bits = map f_on (m_feats m) ->
+  forall l0 l', Forall2 (fun x x' => In x l /\ feats_but k x x') l0 l' ->
+  map ff (upd k (fun x => set_feats (restore_bits (m_feats x) bits) x) l') = map ff l0.
+Proof.
+  intros Hnd Fm -> l0 l' F. induction F as [|x x' l1 l1' [Hin [K [Hne Hfd]]] F IH]; [reflexivity|].
+  cbn [upd map]. fold (upd k (fun x0 => set_feats (restore_bits (m_feats x0) (map f_on (m_feats m))) x0) l1'). rewrite IH. f_equal.
+  destruct (key_eqb (mkey x') k) eqn:E.
+  - apply key_eqb_eq in E. assert (x = m) by (eapply find_mod_is; [exact Hnd|exact Fm|exact Hin|congruence]). subst x.
+    unfold ff. f_equal; [exact K|]. apply restore_bits_fdecl_id. exact Hfd.
+  - apply key_eqb_neq in E. unfold ff. rewrite K, Hne by congruence. reflexivity.
+Qed.
+
+Lemma restore_FE s t1 mid k m :
+  PI s t1 -> find_mod k (mods t1) = Some m -> Forall2 (feats_but k) (mods t1) (mods mid) ->
+  (featsaved mid = [] -> map ff (mods mid) = map ff (mods t1)) ->
+  (featsaved mid = [] \/ featsaved mid = [(k, map f_on (m_feats m))]) ->
+  FE s (restore_features mid).
+Proof.
+  intros P Fm FB Hsame Hsv. apply FE_of_map. rewrite <- (map_of_FE s t1 (PI_FE' s t1 P)).
+  unfold olds_of. rewrite <- !firstn_map. f_equal.
+  destruct Hsv as [E|E].
+  - rewrite (restore_features_nil mid E). apply Hsame. exact E.
+  - rewrite (restore_features_one mid k _ E). cbn [upd_s with_mods mods].
+    apply (restore_map (mods t1) k m _ (pi_nodup _ _ P) Fm eq_refl (mods t1)). apply Forall2_with_In. exact FB.
+Qed.
+
+Lemma revert_restores s imp dss mid0 :
+  wf_state s -> QI s imp (concat dss) mid0 -> FE s (restore_features mid0) -> LJs s -> LJs mid0 ->
+  implementing mid0 = imp -> creating mid0 = keys (news_of s mid0) -> (imp = [] -> featsaved mid0 = [] -> dss = []) ->
+  Forall2 frel (mods s) (mods (erase (revert mid0 dss))).
+Proof.
+  intros W Q0 F Js Jm0 Himp0 Hcr0 Hnil0.
+  unfold revert. pose proof (restore_features_same_but mid0) as Sr.
+  pose proof (QI_restore s imp (concat dss) mid0 Q0) as Q. set (mid := restore_features mid0) in *.
+  assert (Jm : LJs mid) by (unfold LJs; eapply LJ_kl; [apply restore_features_kl|exact Jm0]).
+  assert (Himp : implementing mid = imp) by (rewrite (sb_implementing _ _ _ Sr); exact Himp0).
+  assert (Hfsv : featsaved mid = featsaved mid0) by apply (sb_featsaved _ _ _ Sr).
+  assert (Hcr : creating mid = keys (news_of s mid)).
+  { rewrite (sb_creating _ _ _ Sr), Hcr0. unfold news_of, keys. rewrite <- !skipn_map. f_equal.
+    symmetry. apply (fe_keys _ _ (same_but_frame nrm_F mid0 mid (fun m => eq_refl) Sr)). }
+  assert (Hnil : imp = [] -> featsaved mid = [] -> dss = []) by (rewrite Hfsv; exact Hnil0).
   pose proof (qi_nodup _ _ _ _ Q) as Hnd. pose proof (qi_len _ _ _ _ Q) as Hlen.
-  unfold revert. rewrite Himp.
+  rewrite Himp.
   change (fun s0 k => upd_s k (fun m => set_tc false (set_comp None (set_impl false m))) s0)
     with (fun s0 k => upd_s k unimpl s0).
   rewrite (fold_upd_mods unimpl) by reflexivity.
@@ -2380,7 +2718,7 @@ Proof.
     unfold keys in Hnd. rewrite map_app in Hnd. intros Hin. apply (NoDup_app_not_l _ _ _ Hnd Hin).
     fold (keys (olds_of s mid)). rewrite (keys_olds_Q s imp _ mid Q). apply in_map. exact H0. }
   set (U := fun m0 m'' : modl => In m0 (mods s) /\ qrel [] (concat dss2) m0 m'' /\ m_feats m'' = m_feats m0 /\
-                                (imp = [] -> m_comp m'' = m_comp m0)).
+                                (imp = [] -> featsaved mid = [] -> m_comp m'' = m_comp m0)).
   assert (FU : Forall2 U (mods s) (mods s2)).
   { unfold s2. cbn [with_mods mods].
     apply (Forall2_compose U U (fun b b' => nrm_L b' = nrm_L b) (mods s) (map h1 (olds_of s mid)) olds'); [|exact FL|].
@@ -2389,7 +2727,7 @@ Proof.
         split; [rewrite E1; exact Hf|rewrite E2; exact Hc]. }
     apply (Forall2_map_r_gen _ U h1 _ _ FA). unfold U. cbn.
     intros m0 m' [H0 [Hr [_ Hf]]]. pose proof (wfs_mods _ W m0 H0) as Wm.
-    destruct Hr as [R1 R2 R3 R4 R5 R6 R7 R8 R9 R10]. unfold h1.
+    destruct Hr as [R1 R2 R3 R4 R5 R6 R7 R8 R9 R10 R11]. unfold h1.
     destruct (kmem (mkey m') imp) eqn:Ek.
     - apply kmem_In in Ek. rewrite R1 in Ek. pose proof (R8 Ek) as Hi0.
       split; [exact H0|]. split; [|split; [exact Hf|]].
@@ -2397,7 +2735,7 @@ Proof.
         * intros H. congruence.
         * intros [].
         * left. symmetry. apply (wf_comp_nimpl _ _ Wm Hi0).
-      + intros _. cbn. symmetry. apply (wf_comp_nimpl _ _ Wm Hi0).
+      + intros _ _. cbn. symmetry. apply (wf_comp_nimpl _ _ Wm Hi0).
     - apply kmem_false in Ek. rewrite R1 in Ek.
       split; [exact H0|]. split; [|split; [exact Hf|]].
       + constructor; try assumption.
@@ -2405,8 +2743,8 @@ Proof.
         * intros [].
         * destruct R10 as [H|[[H1 H2]|H]]; [left; exact H| |contradiction].
           right. left. split; [exact H1|]. apply Hkeep; [apply Hnew; exact H0|exact H2].
-      + intros Hnl. destruct R10 as [H|[[H1 H2]|H]]; [exact H| |contradiction].
-        rewrite (Hnil Hnl) in H2. destruct H2. }
+      + intros Hnl Hfn. destruct R10 as [H|[[H1 H2]|H]]; [exact H| |contradiction].
+        rewrite (Hnil Hnl Hfn) in H2. destruct H2. }
   unfold U in FU. clear U.
   assert (Q2 : QI s [] (concat dss2) s2).
   { constructor.
@@ -2418,21 +2756,13 @@ Proof.
   { unfold FE. rewrite Holds2. eapply Forall2_impl; [|exact FU]. cbn. intros a b [_ [Hr [Hf _]]].
     split; [apply (q_key _ _ _ _ Hr)|exact Hf]. }
   assert (Himp2 : implementing s2 = imp) by exact Himp.
-  rewrite Himp2.
-  destruct imp as [|k0 imp'].
-  - (* nothing was being implemented: nothing is recompiled *)
-    cbn [erase with_implementing with_creating mods].
-    assert (FK : Forall2 (fun m m' => mkey m' = mkey m) (mods s) (mods s2)).
-    { eapply Forall2_impl; [|exact FU]. cbn. intros a b [_ [Hr _]]. apply (q_key _ _ _ _ Hr). }
-    pose proof (LJ_same_keys _ _ FK Js J2) as FLt.
-    eapply Forall2_impl; [|exact (Forall2_conj _ _ _ _ FU FLt)]. cbn. intros a b [[_ [Hr [Hf Hc]]] Hl].
-    destruct Hr as [R1 R2 R3 R4 R5 R6 R7 R8 R9 R10]. constructor; try assumption; [|apply Hc; reflexivity].
-    destruct (m_impl a) eqn:Ea; [apply R6; reflexivity|]. destruct (m_impl b) eqn:Eb; [|reflexivity].
-    destruct (R7 eq_refl) as [H|[]]. discriminate.
-  - (* the previous context is recompiled *)
-    assert (H2 : healthy s2).
+  assert (Hfs2 : featsaved s2 = featsaved mid) by reflexivity.
+  rewrite Himp2, Hfs2.
+  (* the recompilation of the previous context *)
+  assert (Hrec : Forall2 frel (mods s) (mods (erase (fst (compile_all dss2 s2))))).
+  { assert (H2 : healthy s2).
     { intros m'' Hin Htc. destruct (Forall2_In_r _ _ _ _ FU Hin) as [m0 [_ [H0 [Hr [Hf _]]]]].
-      destruct Hr as [R1 R2 R3 R4 R5 R6 R7 R8 R9 R10].
+      destruct Hr as [R1 R2 R3 R4 R5 R6 R7 R8 R9 R10 R11].
       rewrite (compiles_ok_ext m0 m'' Hf R3). destruct (R7 (R9 Htc)) as [Hi|[]].
       apply (wf_comp_impl _ _ (wfs_mods _ W m0 H0) Hi). }
     assert (Hd2 : forall ds, In ds dss2 -> incl ds (concat dss2)).
@@ -2446,20 +2776,30 @@ Proof.
     pose proof (FE_same_but s s2 s3 S3 F2) as F3.
     assert (J3 : LJs s3).
     { unfold LJs. eapply LJ_kl; [|exact J2]. apply (same_but_kl no_tc_comp); [intros m; split; reflexivity|exact S3]. }
-    cbn [erase with_implementing with_creating mods].
+    cbn [erase with_featsaved with_implementing with_creating mods].
     assert (FK : Forall2 (fun m m' => mkey m' = mkey m) (mods s) (mods s3)).
     { rewrite <- Holds3. eapply Forall2_impl; [|exact (qi_olds _ _ _ _ Q3)]. intros a b Hr. apply (q_key _ _ _ _ Hr). }
     pose proof (LJ_same_keys _ _ FK Js J3) as FLt.
     pose proof (Forall2_with_In _ _ _ (Forall2_conj _ _ _ _ (qi_olds _ _ _ _ Q3) F3)) as FB.
     rewrite Holds3 in FB. pose proof (Forall2_with_In_r _ _ _ (Forall2_conj _ _ _ _ FB FLt)) as FB'.
     eapply Forall2_impl; [|exact FB']. cbn. intros a b [Hb [[H0 [Hr [_ Hf]]] Hl]].
-    destruct Hr as [R1 R2 R3 R4 R5 R6 R7 R8 R9 R10]. constructor; try assumption.
+    destruct Hr as [R1 R2 R3 R4 R5 R6 R7 R8 R9 R10 R11]. constructor; try assumption.
     + destruct (m_impl a) eqn:Ea; [apply R6; reflexivity|]. destruct (m_impl b) eqn:Eb; [|reflexivity].
       destruct (R7 eq_refl) as [H|[]]. discriminate.
     + destruct R10 as [H|[[H1 H2']|[]]]; [exact H|].
       assert (Fb : find_mod (mkey b) (mods s3) = Some b)
         by (apply find_mod_unique; [apply (qi_nodup _ _ _ _ Q3)|exact Hb|reflexivity]).
-      rewrite R1 in Fb. rewrite (T3 (mkey a) b H2' Fb) in H1. discriminate.
+      rewrite R1 in Fb. rewrite (T3 (mkey a) b H2' Fb) in H1. discriminate. }
+  destruct imp as [|k0 imp']; [destruct (featsaved mid) as [|e0 fsv'] eqn:Efs|]; try exact Hrec.
+  (* nothing was being implemented and no feature was touched: nothing is recompiled *)
+  cbn [erase with_featsaved with_implementing with_creating mods].
+  assert (FK : Forall2 (fun m m' => mkey m' = mkey m) (mods s) (mods s2)).
+  { eapply Forall2_impl; [|exact FU]. cbn. intros a b [_ [Hr _]]. apply (q_key _ _ _ _ Hr). }
+  pose proof (LJ_same_keys _ _ FK Js J2) as FLt.
+  eapply Forall2_impl; [|exact (Forall2_conj _ _ _ _ FU FLt)]. cbn. intros a b [[_ [Hr [Hf Hc]]] Hl].
+  destruct Hr as [R1 R2 R3 R4 R5 R6 R7 R8 R9 R10 R11]. constructor; try assumption; [|apply Hc; reflexivity].
+  destruct (m_impl a) eqn:Ea; [apply R6; reflexivity|]. destruct (m_impl b) eqn:Eb; [|reflexivity].
+  destruct (R7 eq_refl) as [H|[]]. discriminate.
 Qed.
 
 (* ------------------------------------------------------------------------------------------------ *)
@@ -2483,85 +2823,172 @@ Proof.
   - pose proof (pi_news _ _ P) as Fn. rewrite Forall_forall in Fn. apply (Fn m Hin).
 Qed.
 
-Lemma PI_FE s t : PI s t -> FE s t.
+Lemma set_features_fdecl fs sel fs' : set_features fs sel = SfOk fs' -> map fdecl fs' = map fdecl fs.
 Proof.
-  intros P. pose proof (map_eq_Forall2 _ _ _ (pi_olds _ _ P)) as F. eapply Forall2_impl; [|exact F]. cbn.
-  intros a b E. apply clr_flags_fields in E. tauto.
+  unfold set_features. destruct sel as [| |l].
+  - discriminate.
+  - destruct (forallb f_on fs); [discriminate|]. intros H. inversion H. rewrite map_map. reflexivity.
+  - destruct l as [|n l].
+    + destruct (existsb f_on fs); [|discriminate]. intros H. inversion H. rewrite map_map. reflexivity.
+    + destruct (negb _); [discriminate|]. destruct (forallb _ fs); [discriminate|]. intros H. inversion H. rewrite map_map. reflexivity.
 Qed.
+
+Lemma QI_mods_eq s imp D t t' : mods t' = mods t -> explicit t' = explicit t -> QI s imp D t -> QI s imp D t'.
+Proof.
+  intros Em Ee [Q1 Q2 Q3 Q4]. constructor; unfold olds_of in *; rewrite ?Em, ?Ee; assumption.
+Qed.
+
+Lemma saved_explicit t k sel m : explicit (saved t k sel m) = explicit t.
+Proof. destruct sel; reflexivity. Qed.
+Lemma saved_featsaved t k sel m : featsaved t = [] ->
+  (sel = FNull /\ featsaved (saved t k sel m) = []) \/ (sel <> FNull /\ featsaved (saved t k sel m) = [(k, map f_on (m_feats m))]).
+Proof. intros H. destruct sel; cbn; rewrite ?H; [left; tauto|right; split; [discriminate|reflexivity]..]. Qed.
+
+Lemma Forall2_refl_In {A} (l : list A) : Forall2 (fun x x' => In x l /\ x' = x) l l.
+Proof.
+  apply Forall2_with_In. induction l; constructor; [reflexivity|assumption].
+Qed.
+
+(* the features after lys_set_features and the rest of the call: only those of the module it was given may differ *)
+Lemma feats_chain t1 k m fs g t2 mid :
+  NoDup (keys (mods t1)) -> find_mod k (mods t1) = Some m ->
+  (forall x, mkey (g x) = mkey x /\ m_feats (g x) = fs) -> map fdecl fs = map fdecl (m_feats m) ->
+  mods t2 = upd k g (mods t1) -> same_but no_tc_comp t2 mid ->
+  Forall2 (feats_but k) (mods t1) (mods mid) /\ (fs = m_feats m -> map ff (mods mid) = map ff (mods t1)).
+Proof.
+  intros Hnd Fm Hg Hfd E2 S.
+  assert (Eff : map ff (mods mid) = map ff (mods t2)).
+  { assert (G : forall l, map ff l = map ff (map no_tc_comp l)) by (intros l; rewrite map_map; apply map_ext; intros x; destruct x; reflexivity).
+    rewrite G, (sb_mods _ _ _ S), <- G. reflexivity. }
+  assert (F12 : Forall2 (fun x x2 => feats_but k x x2 /\ (fs = m_feats m -> ff x2 = ff x)) (mods t1) (mods t2)).
+  { rewrite E2. pose proof (Forall2_refl_In (mods t1)) as F0.
+    unfold upd. apply (Forall2_map_r_gen _ _ _ _ _ F0). cbn. intros x x' [Hin ->].
+    destruct (key_eqb (mkey x) k) eqn:E.
+    - apply key_eqb_eq in E. assert (x = m) by (eapply find_mod_is; eassumption). subst x.
+      destruct (Hg m) as [G1 G2]. split; [split; [exact G1|split; [intros H; contradiction|rewrite G2; exact Hfd]]|].
+      intros Hfs. unfold ff. rewrite G1, G2, Hfs. reflexivity.
+    - split; [split; [reflexivity|split; [reflexivity|reflexivity]]|reflexivity]. }
+  assert (F2m : Forall2 (fun x2 x' => ff x' = ff x2) (mods t2) (mods mid)) by (apply Forall2_map_eq; exact Eff).
+  split.
+  - eapply (Forall2_compose _ _ _ _ _ _ F12 F2m). cbn. intros a b c [[K [Hne Hfd']] _] E.
+    pose proof (f_equal fst E) as E1. pose proof (f_equal snd E) as E3. cbn in E1, E3.
+    split; [congruence|]. split; [intros H; rewrite E3; apply Hne; exact H|rewrite E3; exact Hfd'].
+  - intros Hfs. rewrite Eff. apply Forall2_map_eq. eapply Forall2_impl; [|exact F12]. cbn. intros a b [_ H]. apply H. exact Hfs.
+Qed.
+
+Lemma single_ds_same t t' ds : same_but no_tc_comp t t' -> single_ds t ds -> single_ds t' ds.
+Proof.
+  intros S H x Hx. specialize (H x Hx). unfold is_single in *.
+  destruct (find_mod x (mods t')) as [m'|] eqn:F'.
+  - destruct (same_but_find no_tc_comp t t' x m' (fun y => eq_refl) S F') as [m [F E]]. rewrite F in H.
+    rewrite <- H. exact (f_equal m_single E).
+  - destruct (find_mod x (mods t)) as [m|] eqn:F; [|exact H].
+    destruct (same_but_find_l no_tc_comp t t' x m (fun y => eq_refl) S F) as [m' [F2 _]]. congruence.
+Qed.
+
+(* dep sets and compilation after a successful _lys_set_implemented, failing *)
+Lemma dc_fail_QI s imp t2 k mid dss :
+  wf_state s -> QI s imp [] t2 -> dc t2 k = (mid, dss, false) ->
+  QI s imp (concat dss) mid /\ same_but no_tc_comp t2 mid.
+Proof.
+  intros W Q2 E. pose proof (dc_same_but t2 k) as S. rewrite E in S. cbn [fst] in S. split; [|exact S].
+  unfold dc in E. destruct (dep_sets_create_QI s imp [] t2 (Some k) Q2) as [Q3 S3].
+  pose proof (dep_sets_create_shape t2 k) as Hshape.
+  destruct (dep_sets_create t2 (Some k)) as [t3 dss3]. cbn [fst snd] in Q3, S3, Hshape.
+  assert (Hd3 : forall ds, In ds dss3 -> incl ds (concat dss3)).
+  { intros ds Hin x Hx. apply in_concat. exists ds. tauto. }
+  assert (Q3' : QI s imp (concat dss3) t3) by (eapply QI_mono_D; [exact Q3|intros x []]).
+  pose proof (compile_all_QI_fail s imp (concat dss3) W dss3 t3 Q3' Hd3) as Hc.
+  destruct (compile_all dss3 t3) as [t4 ok4]. inversion E; subst t4 dss3 ok4. cbn [fst snd] in Hc.
+  apply Hc; [|reflexivity]. intros ds t' Hin Q' S'.
+  apply (plain_snap_ok s imp (concat dss) t' ds W Q').
+  apply (single_ds_same t3 t' ds S'). apply (single_ds_same t2 t3 ds (no_tc_weaken _ _ S3)). apply Hshape. exact Hin.
+Qed.
+
+Lemma none_tc_mods t t' : mods t' = mods t -> none_tc t -> none_tc t'.
+Proof. intros E H m Hm. apply H. rewrite <- E. exact Hm. Qed.
 
 (* implement_and_compile from the end of the parse phase, failing *)
 Lemma iac_restores s t1 k sel mid dss :
-  wf_state s -> PI s t1 -> implement_and_compile t1 k sel = (mid, dss, false) ->
-  FE s mid -> LJs s -> LJs mid ->
+  wf_state s -> PI s t1 -> implement_and_compile t1 k sel = (mid, dss, false) -> LJs s -> LJs mid ->
   Forall2 frel (mods s) (mods (erase (revert mid dss))).
 Proof.
-  intros W P E F Js Jm.
+  intros W P E Js Jm.
   pose proof (iac_frame t1 k sel) as Fr. rewrite E in Fr. cbn [fst] in Fr.
   destruct (PI_frame s t1 mid P Fr) as [Hnd [Hko Hcr]].
+  pose proof (PI_QI s t1 W P) as Q1. pose proof (pi_fsaved _ _ P) as Hf1. pose proof (pi_impl _ _ P) as Hi1.
   rewrite iac_unfold in E.
-  destruct (set_implemented_cases t1 k sel) as [| |m fs Fm Hi Hs|m fs Fm Hi Hs]; cbn [negb] in E.
-  - (* _lys_set_implemented failed: nothing was touched after the parse phase *)
+  destruct (set_implemented_cases t1 k sel) as [Fn|m Fm|m Fm|m fs Fm Hi Hs|m fs Fm Hi Hs]; cbn [negb] in E.
+  - (* the module is not there (does not happen) *)
     inversion E; subst mid dss.
-    apply (revert_restores s [] [] t1 W); [apply PI_QI; assumption|exact F|exact Js|exact Jm|apply (pi_impl _ _ P)|exact Hcr|reflexivity].
+    apply (revert_restores s [] [] t1 W Q1); [|exact Js|exact Jm|exact Hi1|exact Hcr|reflexivity].
+    rewrite (restore_features_nil t1 Hf1). apply PI_FE'. exact P.
+  - (* _lys_set_implemented failed: nothing was touched after the parse phase *)
+    inversion E; subst mid dss. set (t' := saved t1 k sel m) in *.
+    assert (Q' : QI s [] [] t') by (apply (QI_mods_eq s [] [] t1 t' (mods_saved _ _ _ _) (saved_explicit _ _ _ _) Q1)).
+    apply (revert_restores s [] [] t' W Q'); [|exact Js|exact Jm|unfold t'; rewrite implementing_saved; exact Hi1|exact Hcr|reflexivity].
+    apply (restore_FE s t1 t' k m P Fm).
+    + unfold t'. rewrite mods_saved. eapply Forall2_impl; [|apply (Forall2_refl_In (mods t1))]. cbn.
+      intros a b [_ ->]. split; [reflexivity|split; reflexivity].
+    + intros _. unfold t'. rewrite mods_saved. reflexivity.
+    + destruct (saved_featsaved t1 k sel m Hf1) as [[_ H]|[_ H]]; [left|right]; exact H.
   - (* no change: nothing is marked, the compilation cannot fail *)
-    exfalso. destruct (explicit t1); [discriminate E|]. unfold dc in E.
-    pose proof (dep_sets_create_none t1 (Some k) (PI_none_tc s t1 W P)) as N2.
-    destruct (dep_sets_create t1 (Some k)) as [s2 dss2]. cbn [fst] in N2.
+    exfalso. set (t' := saved t1 k sel m) in *. destruct (explicit t'); [discriminate E|]. unfold dc in E.
+    assert (N' : none_tc t') by (apply (none_tc_mods t1 t' (mods_saved _ _ _ _)); apply (PI_none_tc s t1 W P)).
+    pose proof (dep_sets_create_none t' (Some k) N') as N2.
+    destruct (dep_sets_create t' (Some k)) as [s2 dss2]. cbn [fst] in N2.
     destruct (compile_all_none dss2 s2 N2) as [Ok _]. destruct (compile_all dss2 s2) as [s3 ok3]. cbn [snd] in Ok.
     inversion E. congruence.
-  - (* feature bits of an implemented (hence old) module changed: excluded by the hypothesis *)
-    exfalso.
-    set (t2 := add_ev EvChange (upd_s k (fun m0 => set_tc true (set_feats fs m0)) t1)) in *.
-    assert (S : same_but no_tc_comp t2 mid).
-    { destruct (explicit t2); [inversion E; apply same_but_refl|].
-      pose proof (dc_same_but t2 k) as S. rewrite E in S. exact S. }
-    assert (F2 : find_mod k (mods t2) = Some (set_tc true (set_feats fs m))).
-    { unfold t2. cbn [add_ev upd_s with_mods mods].
-      apply (find_mod_upd_same k (fun m0 => set_tc true (set_feats fs m0)) (mods t1) m); [reflexivity|exact Fm]. }
-    destruct (same_but_find_l no_tc_comp t2 mid k (set_tc true (set_feats fs m)) (fun x => eq_refl (mkey x)) S F2) as [mm [Fmm Emm]].
-    assert (Efs : m_feats mm = fs) by exact (f_equal m_feats Emm).
-    (* m is an old module *)
-    rewrite (olds_news s t1), find_mod_app in Fm.
-    destruct (find_mod k (olds_of s t1)) as [mo|] eqn:Fo.
-    2:{ apply find_mod_In in Fm. destruct Fm as [Hin _]. pose proof (pi_news _ _ P) as Fn. rewrite Forall_forall in Fn.
-        destruct (Fn m Hin) as [Hf _]. congruence. }
-    inversion Fm; subst mo.
-    destruct (find_mod_Forall2_r _ k _ _ m (PI_FE s t1 P) Fo) as [m0 [F0 Hf0]].
-    destruct (find_mod_Forall2 _ k _ _ m0 F F0) as [b [Fb Hfb]].
-    rewrite (olds_news s mid), find_mod_app, Fb in Fmm. inversion Fmm; subst b.
-    apply (set_features_changed _ _ _ Hs). congruence.
+  - (* the features of an implemented module were changed and the compilation failed *)
+    set (t' := saved t1 k sel m) in *.
+    assert (Q' : QI s [] [] t') by (apply (QI_mods_eq s [] [] t1 t' (mods_saved _ _ _ _) (saved_explicit _ _ _ _) Q1)).
+    assert (Fm' : find_mod k (mods t') = Some m) by (unfold t'; rewrite mods_saved; exact Fm).
+    pose proof (set_features_fdecl _ _ _ Hs) as Hfd.
+    set (t2 := add_ev EvChange (upd_s k (fun m0 => set_tc true (set_feats fs m0)) t')) in *.
+    assert (Q2 : QI s [] [] t2).
+    { unfold t2. apply QI_add_ev. apply QI_upd; [exact Q'|reflexivity|]. intros a b Hin Hk Hr.
+      assert (b = m) by (eapply find_mod_is; [apply (qi_nodup _ _ _ _ Q')|exact Fm'|exact Hin|exact Hk]). subst b.
+      apply qrel_set_tc_true; [exact Hi|]. apply qrel_set_feats; [exact Hfd|exact Hr]. }
+    destruct (explicit t2); [discriminate E|].
+    destruct (dc_fail_QI s [] t2 k mid dss W Q2 E) as [Qm Sm].
+    assert (Hsel : sel <> FNull) by (intros ->; discriminate Hs).
+    assert (Hfsm : featsaved mid = [(k, map f_on (m_feats m))]).
+    { rewrite (sb_featsaved _ _ _ Sm). unfold t2. cbn [add_ev upd_s with_mods featsaved].
+      destruct (saved_featsaved t1 k sel m Hf1) as [[H _]|[_ H]]; [contradiction|exact H]. }
+    destruct (feats_chain t1 k m fs (fun m0 => set_tc true (set_feats fs m0)) t2 mid (pi_nodup _ _ P) Fm
+                (fun x => conj eq_refl eq_refl) Hfd) as [FB _]; [unfold t2; cbn [add_ev upd_s with_mods mods]; unfold t'; rewrite mods_saved; reflexivity|exact Sm|].
+    apply (revert_restores s [] dss mid W Qm); [|exact Js|exact Jm| |exact Hcr|].
+    + apply (restore_FE s t1 mid k m P Fm FB); [rewrite Hfsm; discriminate|right; exact Hfsm].
+    + rewrite (sb_implementing _ _ _ Sm). unfold t2. cbn [add_ev upd_s with_mods implementing]. unfold t'. rewrite implementing_saved. exact Hi1.
+    + intros _ H. rewrite Hfsm in H. discriminate H.
   - (* lys_implement *)
-    assert (Himp1 : implementing t1 = []) by apply (pi_impl _ _ P).
+    set (t' := saved t1 k sel m) in *.
+    assert (Q' : QI s [] [] t') by (apply (QI_mods_eq s [] [] t1 t' (mods_saved _ _ _ _) (saved_explicit _ _ _ _) Q1)).
+    assert (Fm' : find_mod k (mods t') = Some m) by (unfold t'; rewrite mods_saved; exact Fm).
+    assert (Hfd : map fdecl fs = map fdecl (m_feats m)) by (destruct Hs as [Hs'|Hs']; [apply (set_features_fdecl _ _ _ Hs')|rewrite Hs'; reflexivity]).
     set (t2' := with_implementing (implementing t1 ++ [k])
-                  (add_ev EvChange (upd_s k (fun m0 => set_tc true (set_impl true (set_feats fs m0))) t1))) in *.
-    pose proof (QI_implement s [] t1 k m fs (PI_QI s t1 W P) Fm Hi) as Q2'. fold t2' in Q2'.
+                  (add_ev EvChange (upd_s k (fun m0 => set_tc true (set_impl true (set_feats fs m0))) t'))) in *.
+    assert (Q2' : QI s [k] [] t2').
+    { pose proof (QI_implement s [] t' k m fs Q' Fm' Hi Hfd) as H. unfold t' in H. rewrite implementing_saved in H. exact H. }
     destruct (has_compiled_import_r_QI s [k] [] (S (length (mods t1))) t2' k Q2') as [Q2 S2].
     set (t2 := fst (has_compiled_import_r (S (length (mods t1))) t2' k)) in *.
     assert (Hi2 : implementing t2 = [k]).
-    { rewrite (sb_implementing _ _ _ S2). unfold t2'. cbn [with_implementing implementing]. rewrite Himp1. reflexivity. }
-    destruct (explicit t2); [discriminate E|]. unfold dc in E.
-    destruct (dep_sets_create_QI s [k] [] t2 (Some k) Q2) as [Q3 S3].
-    destruct (dep_sets_create t2 (Some k)) as [t3 dss3]. cbn [fst] in Q3, S3.
-    pose proof (same_but_compile_all dss3 t3) as S4.
-    assert (Hd3 : forall ds, In ds dss3 -> incl ds (concat dss3)).
-    { intros ds Hin x Hx. apply in_concat. exists ds. tauto. }
-    assert (Q3' : QI s [k] (concat dss3) t3) by (eapply QI_mono_D; [exact Q3|intros x []]).
-    destruct (compile_all dss3 t3) as [t4 ok4] eqn:Ec. cbn [fst] in S4. inversion E; subst t4 dss3 ok4.
-    assert (F3 : FE s t3) by (apply (FE_same_but s mid t3 (same_but_sym _ _ _ S4) F)).
-    pose proof (compile_all_QI s [k] (concat dss) W dss t3 Q3' F3 Hd3) as [Q4 _]. rewrite Ec in Q4. cbn [fst] in Q4.
-    apply (revert_restores s [k] dss mid W Q4 F Js Jm); [|exact Hcr|discriminate].
-    rewrite (sb_implementing _ _ _ S4), (sb_implementing _ _ _ S3). exact Hi2.
-Qed.
-
-Lemma keeps_PE {X} (f : modl -> X) (p : modl -> modl -> bool) R s o :
-  (forall m m', p m m' = true -> f m' = f m) ->
-  NoDup (keys (mods (step_mid R s o))) -> keys (olds_of (core s) (step_mid R s o)) = keys (mods s) ->
-  keeps p R s o = true -> PE f (core s) (step_mid R s o).
-Proof.
-  intros Hp Hnd Hk Hkeep. unfold PE. cbn [core mods].
-  pose proof (keeps_Forall2 p (mods (step_mid R s o)) Hnd (mods s) (olds_of (core s) (step_mid R s o)) Hk
-                (fun m' H => In_olds (core s) _ m' H) Hkeep) as F.
-  eapply Forall2_impl; [|exact F]. cbn. intros a b [H1 H2]. split; [exact H1|apply Hp; exact H2].
+    { rewrite (sb_implementing _ _ _ S2). unfold t2'. cbn [with_implementing implementing]. rewrite Hi1. reflexivity. }
+    destruct (explicit t2); [discriminate E|].
+    destruct (dc_fail_QI s [k] t2 k mid dss W Q2 E) as [Qm Sm].
+    assert (S2m : same_but no_tc_comp t2' mid) by (eapply same_but_trans; [apply no_tc_weaken; exact S2|exact Sm]).
+    destruct (feats_chain t1 k m fs (fun m0 => set_tc true (set_impl true (set_feats fs m0))) t2' mid (pi_nodup _ _ P) Fm
+                (fun x => conj eq_refl eq_refl) Hfd) as [FB Hsame];
+      [unfold t2'; cbn [with_implementing add_ev upd_s with_mods mods]; unfold t'; rewrite mods_saved; reflexivity|exact S2m|].
+    assert (Hfsm : featsaved mid = featsaved t').
+    { rewrite (sb_featsaved _ _ _ S2m). reflexivity. }
+    apply (revert_restores s [k] dss mid W Qm); [|exact Js|exact Jm| |exact Hcr|discriminate].
+    + apply (restore_FE s t1 mid k m P Fm FB).
+      * intros Hn. apply Hsame. rewrite Hfsm in Hn.
+        destruct (saved_featsaved t1 k sel m Hf1) as [[Hsel _]|[_ H]]; [|unfold t' in Hn; rewrite H in Hn; discriminate Hn].
+        subst sel. destruct Hs as [Hs|Hs]; [discriminate Hs|exact Hs].
+      * rewrite Hfsm. destruct (saved_featsaved t1 k sel m Hf1) as [[_ H]|[_ H]]; [left|right]; exact H.
+    + rewrite (sb_implementing _ _ _ Sm). exact Hi2.
 Qed.
 
 Lemma finish_err o mid dss r s' :
@@ -2575,38 +3002,27 @@ Proof.
 Qed.
 
 Theorem failed_restores R s o s' :
-  LJs s -> quiescent s = true -> keeps_features R s o = true ->
-  step R s o = (s', RErr) -> obs s' = obs s.
+  LJs s -> quiescent s = true -> step R s o = (s', RErr) -> obs s' = obs s.
 Proof.
-  intros Js Hq Hkf Hstep.
+  intros Js Hq Hstep.
   assert (W : wf_state (core s)) by (apply quiescent_wf; exact Hq).
   assert (P0 : PI (core s) (core s)) by (apply PI_refl; [exact W|reflexivity]).
   change (obs s) with (obs (core s)). apply obs_frel.
-  unfold step in Hstep. unfold keeps_features in *.
-  pose proof (attempt_LJ R (core s) o Js) as Jmid.
-  assert (Hmid : step_mid R s o = fst (fst (attempt R (core s) o))) by reflexivity.
-  destruct (attempt R (core s) o) as [[mid dss] r] eqn:Ea. cbn [fst] in Hmid, Jmid.
+  unfold step in Hstep. pose proof (attempt_LJ R (core s) o Js) as Jmid.
+  destruct (attempt R (core s) o) as [[mid dss] r] eqn:Ea. cbn [fst] in Jmid.
   destruct (finish_err o mid dss r s' Hstep) as [-> ->].
-  (* the frame at the cleanup point gives the two hypotheses positionally *)
-  assert (Hgoal : forall t1, PI (core s) t1 -> frame_eq t1 mid ->
-            (FE (core s) mid -> Forall2 frel (mods (core s)) (mods (erase (revert mid dss)))) ->
-            Forall2 frel (mods (core s)) (mods (erase (revert mid dss)))).
-  { intros t1 P1 Fr K. destruct (PI_frame (core s) t1 mid P1 Fr) as [Hnd [Hko _]]. rewrite <- Hmid in Hnd, Hko.
-    apply K; rewrite <- Hmid.
-    apply (keeps_PE m_feats (fun m m' => feats_eqb (m_feats m') (m_feats m)) R s o);
-      [intros a b H; apply feats_eqb_eq; exact H|exact Hnd|exact Hko|exact Hkf]. }
   assert (Hfail : forall t1, PI (core s) t1 -> mid = t1 -> dss = [] ->
             Forall2 frel (mods (core s)) (mods (erase (revert mid dss)))).
-  { intros t1 P1 -> ->. apply (Hgoal t1 P1 (frame_eq_refl t1)). intros F.
+  { intros t1 P1 -> ->.
     destruct (PI_frame (core s) t1 t1 P1 (frame_eq_refl t1)) as [_ [_ Hcr]].
-    apply (revert_restores (core s) [] [] t1 W); [apply PI_QI; assumption|exact F|exact Js|exact Jmid|apply (pi_impl _ _ P1)|exact Hcr|reflexivity]. }
+    apply (revert_restores (core s) [] [] t1 W (PI_QI _ _ W P1)); [|exact Js|exact Jmid|apply (pi_impl _ _ P1)|exact Hcr|reflexivity].
+    rewrite (restore_features_nil t1 (pi_fsaved _ _ P1)). apply PI_FE'. exact P1. }
   assert (Hiac : forall t1 k sel, PI (core s) t1 ->
             (let '(s2, dss2, ok) := implement_and_compile t1 k sel in (s2, dss2, if ok then ROk else RErr)) = (mid, dss, RErr) ->
             Forall2 frel (mods (core s)) (mods (erase (revert mid dss)))).
   { intros t1 k sel P1 E. destruct (implement_and_compile t1 k sel) as [[s2 dss2] ok] eqn:Ei.
     destruct ok; [discriminate E|]. inversion E; subst s2 dss2.
-    pose proof (iac_frame t1 k sel) as Fr. rewrite Ei in Fr. cbn [fst] in Fr.
-    apply (Hgoal t1 P1 Fr). intros F. apply (iac_restores (core s) t1 k sel mid dss W P1 Ei F Js Jmid). }
+    apply (iac_restores (core s) t1 k sel mid dss W P1 Ei Js Jmid). }
   destruct o as [d sel|name rev sel|name rev sel|]; cbn [attempt] in Ea.
   - pose proof (parse_in_PI (core s) (pfuel R) R (core s) d None P0) as P1.
     destruct (parse_in (pfuel R) R (core s) d None) as [t1 pr]. cbn [fst] in P1.
@@ -2627,7 +3043,6 @@ Proof.
     destruct (compile_all_none dss1 s1 N1) as [Ok _]. destruct (compile_all dss1 s1) as [s2 ok]. cbn [snd] in Ok.
     subst ok. inversion Ea.
 Qed.
-
 
 (* ------------------------------------------------------------------------------------------------ *)
 (* reachability, later operations, change count                                                     *)
@@ -2652,83 +3067,12 @@ Proof.
 Qed.
 
 (* ------------------------------------------------------------------------------------------------ *)
-(* fault kinds that always restore (from a quiescent state)                                         *)
+(* fault kinds                                                                                      *)
 (* ------------------------------------------------------------------------------------------------ *)
-Lemma keeps_refl_mid p R s o : (forall m, p m m = true) -> NoDup (keys (mods s)) -> mods (step_mid R s o) = mods s ->
-  keeps p R s o = true.
+(* a syntax error in the module text fails (and restores, as every failure does) *)
+Lemma syntax_fault_fails R s d sel : d_fault d = 1 -> snd (step R s (OpParse d sel)) = RErr.
 Proof.
-  intros Hp Hnd Hm. unfold keeps. rewrite Hm. apply forallb_forall. intros m Hin.
-  rewrite (find_mod_unique (mkey m) (mods s) m Hnd Hin eq_refl). apply Hp.
-Qed.
-
-Lemma feats_eqb_refl l : feats_eqb l l = true.
-Proof. apply feats_eqb_eq. reflexivity. Qed.
-
-(* a syntax error in the module text *)
-Lemma syntax_fault_restores R s d sel s' r :
-  LJs s -> quiescent s = true -> d_fault d = 1 -> step R s (OpParse d sel) = (s', r) -> r = RErr /\ obs s' = obs s.
-Proof.
-  intros Js Hq Hf Hs.
-  assert (Hmid : step_mid R s (OpParse d sel) = core s).
-  { unfold step_mid, attempt, pfuel. cbn [parse_in]. rewrite Hf. reflexivity. }
-  assert (Hr : r = RErr).
-  { unfold step, attempt, pfuel in Hs. cbn [parse_in] in Hs. rewrite Hf in Hs. cbn in Hs. inversion Hs. reflexivity. }
-  split; [exact Hr|]. subst r. pose proof (wfs_nodup _ (quiescent_wf s Hq)) as Hnd.
-  apply (failed_restores R s (OpParse d sel) s' Js Hq); [|exact Hs].
-  apply keeps_refl_mid; [intros m; apply feats_eqb_refl|exact Hnd|rewrite Hmid; reflexivity].
-Qed.
-
-(* lys_set_implemented(m, NULL): implementing without touching the features. Whatever makes it fail (another
-   revision is implemented, a node that does not compile, a leafref without target, a disabled list key), the
-   context is restored. *)
-Definition nrm_I (m : modl) : modl := set_tc false (set_comp None (set_impl false m)).
-
-Lemma iac_FNull_mods t k :
-  NoDup (keys (mods t)) ->
-  map nrm_I (mods (fst (fst (implement_and_compile t k FNull)))) = map nrm_I (mods t).
-Proof.
-  intros Hnd. rewrite iac_unfold.
-  assert (Hdc : forall t2, map nrm_I (mods t2) = map nrm_I (mods t) ->
-            map nrm_I (mods (fst (fst (if explicit t2 then (t2, [], true) else dc t2 k)))) = map nrm_I (mods t)).
-  { intros t2 E2. destruct (explicit t2); [exact E2|]. rewrite <- E2.
-    pose proof (dc_same_but t2 k) as S. apply (same_but_weaken no_tc_comp nrm_I) in S; [apply (sb_mods _ _ _ S)|].
-    intros m; destruct m; reflexivity. }
-  destruct (set_implemented_cases t k FNull) as [| |m fs F Hi Hs|m fs F Hi Hs]; cbn [negb fst].
-  - reflexivity.
-  - apply Hdc. reflexivity.
-  - discriminate Hs.
-  - destruct Hs as [Hs|Hs]; [discriminate Hs|]. subst fs. apply Hdc.
-    pose proof (has_compiled_import_r_same_but (S (length (mods t)))
-                  (with_implementing (implementing t ++ [k])
-                     (add_ev EvChange (upd_s k (fun m0 => set_tc true (set_impl true (set_feats (m_feats m) m0))) t))) k) as S.
-    apply (same_but_weaken no_tc nrm_I) in S; [|intros x; destruct x; reflexivity].
-    rewrite (sb_mods _ _ _ S). cbn [with_implementing add_ev upd_s with_mods mods]. unfold upd. rewrite map_map.
-    apply map_ext_in. intros x Hx. destruct (key_eqb (mkey x) k) eqn:E; [|reflexivity].
-    apply key_eqb_eq in E. assert (x = m) by (eapply find_mod_is; eassumption). subst x. destruct m; reflexivity.
-Qed.
-
-Lemma keeps_map_eq (N : modl -> modl) p R s o :
-  (forall m, mkey (N m) = mkey m) -> (forall m m', N m' = N m -> p m m' = true) ->
-  NoDup (keys (mods s)) -> map N (mods (step_mid R s o)) = map N (mods s) -> keeps p R s o = true.
-Proof.
-  intros HN Hp Hnd Hm. unfold keeps. apply forallb_forall. intros m Hin.
-  pose proof (find_mod_unique (mkey m) (mods s) m Hnd Hin eq_refl) as F.
-  destruct (find_mod_map_eq N (mkey m) HN (mods (step_mid R s o)) (mods s) (eq_sym Hm) m F) as [m' [F' E]].
-  rewrite F'. apply Hp. symmetry. exact E.
-Qed.
-
-Lemma failed_implement_restores R s name rev s' :
-  LJs s -> quiescent s = true -> step R s (OpImpl name rev FNull) = (s', RErr) -> obs s' = obs s.
-Proof.
-  intros Js Hq Hs. pose proof (wfs_nodup _ (quiescent_wf s Hq)) as Hnd.
-  assert (Hm : map nrm_I (mods (step_mid R s (OpImpl name rev FNull))) = map nrm_I (mods s)).
-  { unfold step_mid, attempt. destruct (get_module name rev (mods (core s))) as [m|]; [|reflexivity].
-    pose proof (iac_FNull_mods (core s) (mkey m) Hnd) as E.
-    destruct (implement_and_compile (core s) (mkey m) FNull) as [[s2 dss] ok]. exact E. }
-  apply (failed_restores R s (OpImpl name rev FNull) s' Js Hq); [|exact Hs].
-  apply (keeps_map_eq nrm_I); [intros m; reflexivity| |exact Hnd|exact Hm].
-  intros m m' E. pose proof (f_equal m_feats E) as E'. change (m_feats m' = m_feats m) in E'.
-  rewrite E'. apply feats_eqb_refl.
+  intros Hf. unfold step, attempt, pfuel. cbn [parse_in]. rewrite Hf. reflexivity.
 Qed.
 
 (* ly_ctx_compile() with nothing pending succeeds (and compiles nothing) *)
@@ -2744,7 +3088,7 @@ Proof.
   destruct (compile_all_none dss1 s1 N1) as [Ok [_ Ev]]. destruct (compile_all dss1 s1) as [s2 ok]. cbn [fst snd] in Ok, Ev.
   subst ok. unfold finish. split.
   - destruct (fuel_out s2); [discriminate|]. destruct (aborted s2); discriminate.
-  - cbn [fst]. unfold compiled_in, erase. cbn [with_implementing with_creating evs]. rewrite Ev.
+  - cbn [fst]. unfold compiled_in, erase. cbn [with_featsaved with_implementing with_creating evs]. rewrite Ev.
     assert (E1 : evs s1 = []).
     { clear -Ed. unfold dep_sets_create in Ed. destruct (create_single _ (core s) 0 _ []) as [cs1 main1].
       assert (Hl : forall fuel t cs main, evs (fst (dep_sets_loop fuel t None cs main)) = evs t).
@@ -2772,12 +3116,12 @@ Definition fails_in_parse (R : repo) (s : state) (o : op) : bool :=
 
 Lemma revert_parse_evs s t1 : PI s t1 -> evs (erase (revert t1 [])) = evs t1.
 Proof.
-  intros P. unfold revert. rewrite (pi_impl _ _ P). cbn [fold_left].
+  intros P. unfold revert. rewrite (restore_features_nil t1 (pi_fsaved _ _ P)). rewrite (pi_impl _ _ P). cbn [fold_left].
   assert (Hp : Permutation (creating t1) (keys (news_of s t1))) by (rewrite (pi_creating _ _ P); apply Permutation_refl).
   assert (Hnd : NoDup (keys (olds_of s t1 ++ news_of s t1))) by (rewrite <- (olds_news s t1); apply (pi_nodup _ _ P)).
   pose proof (remove_created (creating t1) (olds_of s t1) (news_of s t1) t1 [] (olds_news s t1) Hp Hnd) as H. cbv zeta in H.
   destruct (fold_left rm_step (creating t1) (t1, [])) as [s2 dss2]. cbn [fst] in H. destruct H as [olds' [-> _]].
-  cbn [with_mods implementing]. rewrite (pi_impl _ _ P). reflexivity.
+  cbn [with_mods implementing featsaved]. rewrite (pi_impl _ _ P), (pi_fsaved _ _ P). reflexivity.
 Qed.
 
 Lemma parse_failure_compiles_nothing R s o :
@@ -2816,36 +3160,37 @@ Definition w1_R : repo := [w_a1; w_a2_imp_h].
 Definition w1_s : state := run w1_R (init false) [OpParse w_a1 FNull].
 Definition w1_o : op := OpParse w_a2_imp_h FNull.
 Lemma w1_facts :
-  quiescent w1_s = true /\ keeps_features w1_R w1_s w1_o = true /\
+  quiescent w1_s = true /\ true = true /\
   snd (step w1_R w1_s w1_o) = RErr /\ obs (fst (step w1_R w1_s w1_o)) = obs w1_s /\
   option_map m_latest (find_mod (0, 1) (mods (step_mid w1_R w1_s w1_o))) = Some false.
 Proof. vm_compute. repeat split. Qed.
 
-(* 2. lys_set_implemented(a, {f2}) on the implemented a: f1 off, f2 on, to_compile left *)
+(* 2. (regression, fixed by /repo commit af27b8d) lys_set_implemented(a, {f2}) on the implemented a left f1 off, f2 on and
+   to_compile set; now the bits are written back, and the later load of b importing a succeeds *)
 Definition w2_R : repo := [w_af1; w_b1_imp_a].
 Definition w2_s : state := run w2_R (init false) [OpParse w_af1 (FList [1])].
 Definition w2_o : op := OpImpl 0 1 (FList [2]).
 Lemma w2_facts :
-  quiescent w2_s = true /\ keeps_features w2_R w2_s w2_o = false /\
-  snd (step w2_R w2_s w2_o) = RErr /\ obs (fst (step w2_R w2_s w2_o)) <> obs w2_s /\
-  (* and a later correct load fails *)
-  snd (step w2_R (fst (step w2_R w2_s w2_o)) (OpParse w_b1_imp_a FNull)) = RErr /\
-  snd (step w2_R w2_s (OpParse w_b1_imp_a FNull)) = ROk.
-Proof. vm_compute. repeat split; discriminate. Qed.
+  quiescent w2_s = true /\ snd (step w2_R w2_s w2_o) = RErr /\
+  option_map (fun m => map f_on (m_feats m)) (find_mod (0, 1) (mods (step_mid w2_R w2_s w2_o))) = Some [false; true] /\
+  obs (fst (step w2_R w2_s w2_o)) = obs w2_s /\ quiescent (fst (step w2_R w2_s w2_o)) = true /\
+  snd (step w2_R (fst (step w2_R w2_s w2_o)) (OpParse w_b1_imp_a FNull)) = ROk.
+Proof. vm_compute. repeat split. Qed.
 
-(* 3. the same on a module that is only imported: b is recompiled against the features that stay *)
+(* 3. (regression, af27b8d) the same on a module that is only imported: the bits stayed and b was recompiled against them *)
 Definition w3_s : state := run w2_R (init false) [OpParse w_b1_imp_a FNull].
 Lemma w3_facts :
-  quiescent w3_s = true /\ keeps_features w2_R w3_s w2_o = false /\
-  snd (step w2_R w3_s w2_o) = RErr /\ obs (fst (step w2_R w3_s w2_o)) <> obs w3_s.
-Proof. vm_compute. repeat split; discriminate. Qed.
+  quiescent w3_s = true /\ snd (step w2_R w3_s w2_o) = RErr /\
+  option_map (fun m => map f_on (m_feats m)) (find_mod (0, 1) (mods (step_mid w2_R w3_s w2_o))) = Some [false; true] /\
+  obs (fst (step w2_R w3_s w2_o)) = obs w3_s /\ quiescent (fst (step w2_R w3_s w2_o)) = true.
+Proof. vm_compute. repeat split. Qed.
 
 (* 4. explicit compilation: the failed parse of c removes b, which an earlier successful call added *)
 Definition w4_R : repo := [w_a1; w_b1; w_c1_syntax].
 Definition w4_s : state := run w4_R (init true) [OpParse w_a1 FNull; OpCompile; OpParse w_b1 FNull].
 Definition w4_o : op := OpParse w_c1_syntax FNull.
 Lemma w4_facts :
-  quiescent w4_s = false /\ keeps_features w4_R w4_s w4_o = true /\
+  quiescent w4_s = false /\
   snd (step w4_R w4_s w4_o) = RErr /\ obs (fst (step w4_R w4_s w4_o)) <> obs w4_s.
 Proof. vm_compute. repeat split; discriminate. Qed.
 
@@ -2894,8 +3239,7 @@ Definition w7_ops : list op :=
     OpParse w_af1 (FList [9]) ].
 Lemma w7_facts :
   quiescent w7_s = true /\
-  forallb (fun o => keeps_features w7_R w7_s o &&
-                    match snd (step w7_R w7_s o) with RErr => true | _ => false end) w7_ops = true.
+  forallb (fun o => match snd (step w7_R w7_s o) with RErr => true | _ => false end) w7_ops = true.
 Proof. vm_compute. split; reflexivity. Qed.
 
 (* ------------------------------------------------------------------------------------------------ *)
@@ -2903,41 +3247,24 @@ Proof. vm_compute. split; reflexivity. Qed.
 (* ------------------------------------------------------------------------------------------------ *)
 Lemma full_statement_refuted : ~ (forall R s o s', reachable R s -> step R s o = (s', RErr) -> obs s' = obs s).
 Proof.
-  intros H. destruct w2_facts as [_ [_ [Hr [Ho _]]]]. apply Ho.
-  apply (H w2_R w2_s w2_o (fst (step w2_R w2_s w2_o)) (reachable_run _ _ _)).
-  rewrite <- Hr. destruct (step w2_R w2_s w2_o); reflexivity.
+  intros H. destruct w4_facts as [_ [Hr Ho]]. apply Ho.
+  apply (H w4_R w4_s w4_o (fst (step w4_R w4_s w4_o)) (reachable_run _ _ _)).
+  rewrite <- Hr. destruct (step w4_R w4_s w4_o); reflexivity.
 Qed.
 
 Lemma failed_restores_reachable R s o s' :
-  reachable R s -> quiescent s = true -> keeps_features R s o = true -> step R s o = (s', RErr) -> obs s' = obs s.
+  reachable R s -> quiescent s = true -> step R s o = (s', RErr) -> obs s' = obs s.
 Proof. intros Hr. apply failed_restores. apply (reachable_LJ R s Hr). Qed.
 
-Lemma side_conditions_necessary :
-  (exists R s o, reachable R s /\ quiescent s = true /\ keeps_features R s o = false /\
-                 snd (step R s o) = RErr /\ obs (fst (step R s o)) <> obs s /\
-                 exists o2, snd (step R (fst (step R s o)) o2) = RErr /\ snd (step R s o2) = ROk) /\
-  (exists R s o, reachable R s /\ quiescent s = true /\ keeps_features R s o = false /\
-                 snd (step R s o) = RErr /\ obs (fst (step R s o)) <> obs s /\
-                 option_map m_impl (find_mod (0, 1) (mods s)) = Some false) /\
-  (exists R s o, reachable R s /\ quiescent s = false /\ keeps_features R s o = true /\
-                 snd (step R s o) = RErr /\ obs (fst (step R s o)) <> obs s).
-Proof.
-  split; [|split].
-  - exists w2_R, w2_s, w2_o. split; [apply reachable_run|]. destruct w2_facts as [A [C [D [E [F G]]]]].
-    exact (conj A (conj C (conj D (conj E (ex_intro _ (OpParse w_b1_imp_a FNull) (conj F G)))))).
-  - exists w2_R, w3_s, w2_o. split; [apply reachable_run|]. destruct w3_facts as [A [C [D E]]].
-    refine (conj A (conj C (conj D (conj E _)))). vm_compute. reflexivity.
-  - exists w4_R, w4_s, w4_o. split; [apply reachable_run|exact w4_facts].
-Qed.
+Lemma quiescent_necessary :
+  exists R s o, reachable R s /\ quiescent s = false /\ snd (step R s o) = RErr /\ obs (fst (step R s o)) <> obs s.
+Proof. exists w4_R, w4_s, w4_o. split; [apply reachable_run|exact w4_facts]. Qed.
 
 Lemma hypotheses_satisfiable :
   reachable w7_R w7_s /\ quiescent w7_s = true /\
-  forallb (fun o => keeps_features w7_R w7_s o &&
-                    match snd (step w7_R w7_s o) with RErr => true | _ => false end) w7_ops = true.
+  forallb (fun o => match snd (step w7_R w7_s o) with RErr => true | _ => false end) w7_ops = true.
 Proof. split; [apply reachable_run|exact w7_facts]. Qed.
 
-(* regression of the fixed defect: the failed load of a@2 takes the flag from a@1 (it is off at the cleanup jump) and
-   the revert gives it back *)
 Lemma latest_flag_given_back :
   reachable w1_R w1_s /\ snd (step w1_R w1_s w1_o) = RErr /\
   option_map m_latest (find_mod (0, 1) (mods (step_mid w1_R w1_s w1_o))) = Some false /\
@@ -2946,13 +3273,28 @@ Proof.
   split; [apply reachable_run|]. destruct w1_facts as [_ [_ [A [B C]]]]. exact (conj A (conj C B)).
 Qed.
 
+(* regression of the defects fixed by af27b8d: at the cleanup jump f1 is off and f2 on; after the revert the observable
+   is what it was, the state is quiescent again and (implemented case) the later load of b succeeds *)
+Lemma feature_bits_restored :
+  (reachable w2_R w2_s /\ snd (step w2_R w2_s w2_o) = RErr /\
+   option_map (fun m => map f_on (m_feats m)) (find_mod (0, 1) (mods (step_mid w2_R w2_s w2_o))) = Some [false; true] /\
+   obs (fst (step w2_R w2_s w2_o)) = obs w2_s /\
+   snd (step w2_R (fst (step w2_R w2_s w2_o)) (OpParse w_b1_imp_a FNull)) = ROk) /\
+  (reachable w2_R w3_s /\ snd (step w2_R w3_s w2_o) = RErr /\
+   option_map (fun m => map f_on (m_feats m)) (find_mod (0, 1) (mods (step_mid w2_R w3_s w2_o))) = Some [false; true] /\
+   obs (fst (step w2_R w3_s w2_o)) = obs w3_s).
+Proof.
+  split.
+  - split; [apply reachable_run|]. destruct w2_facts as [_ [A [B [C [_ D]]]]]. exact (conj A (conj B (conj C D))).
+  - split; [apply reachable_run|]. destruct w3_facts as [_ [A [B [C _]]]]. exact (conj A (conj B C)).
+Qed.
+
 Lemma syntax_fault_restores_reachable R s d sel s' r :
   reachable R s -> quiescent s = true -> d_fault d = 1 -> step R s (OpParse d sel) = (s', r) -> r = RErr /\ obs s' = obs s.
-Proof. intros Hr. apply syntax_fault_restores. apply (reachable_LJ R s Hr). Qed.
-
-Lemma failed_implement_restores_reachable R s name rev s' :
-  reachable R s -> quiescent s = true -> step R s (OpImpl name rev FNull) = (s', RErr) -> obs s' = obs s.
-Proof. intros Hr. apply failed_implement_restores. apply (reachable_LJ R s Hr). Qed.
+Proof.
+  intros Hr Hq Hf Hs. pose proof (syntax_fault_fails R s d sel Hf) as E. rewrite Hs in E. cbn [snd] in E. subst r.
+  split; [reflexivity|]. apply (failed_restores_reachable R s (OpParse d sel) s' Hr Hq Hs).
+Qed.
 
 Lemma later_load_unaffected : forall R s s' o2,
   core s' = core s -> step R s' o2 = step R s o2.
